@@ -27,6 +27,7 @@ class Real:
         self.nap = nap
         self.objs = []      # aligned with the model's store
         self.extra = []     # results of unmodelled operations
+        self.off = 0        # translation (ticks) of every instant of the history (placement axis)
 
     def ep_of(self, i):
         o = self.objs[i] if i < len(self.objs) else self.nap.IntervalSet([], [])
@@ -125,9 +126,13 @@ def snap_equal(a, b):
 
 # ------------------------------------------------------------------------------------------------------
 # generation
-def gen_history(rng, length):
-    """returns list of (code string for the model, python closure spec)"""
+def gen_history(rng, length, offset=0):
+    """returns list of (code string for the model, python closure spec); `offset` (ticks, a multiple of U2) translates every instant of the
+    history (placement axis: negative times, windows straddling 0, large offsets); durations are not translated"""
     ops = []
+
+    def pos(k):
+        return lat(k) + offset
     kinds = []  # 'T' or 'E' per store slot
     def ts_slots():
         return [i for i, k in enumerate(kinds) if k == "T"]
@@ -139,7 +144,7 @@ def gen_history(rng, length):
         t = sorted(rng.sample(range(NPT), n))
         if rng.random() < 0.3:
             rng.shuffle(t)
-        ops.append(("MT", (), [lat(x) for x in t], []))
+        ops.append(("MT", (), [pos(x) for x in t], []))
         kinds.append("T")
     while len(ops) < length:
         r = rng.random()
@@ -147,20 +152,20 @@ def gen_history(rng, length):
         if r < 0.12 or not E:
             m = rng.randint(0, 3)
             pts = sorted(rng.sample(range(NPT), 2 * m))
-            ss, es = [lat(x) for x in pts[0::2]], [lat(x) for x in pts[1::2]]
+            ss, es = [pos(x) for x in pts[0::2]], [pos(x) for x in pts[1::2]]
             if rng.random() < 0.3 and m >= 2:      # malformed: overlapping / touching / unsorted
                 es[0] = ss[1] if rng.random() < 0.5 else es[1]
             ops.append(("ME", (), ss, es)); kinds.append("E")
         elif r < 0.17:
             n = rng.randint(0, 8)
-            ops.append(("MS", (rng.choice(E),), [lat(x) for x in sorted(rng.choices(range(NPT), k=n))], [])); kinds.append("T")
+            ops.append(("MS", (rng.choice(E),), [pos(x) for x in sorted(rng.choices(range(NPT), k=n))], [])); kinds.append("T")
         elif r < 0.24:
             ops.append(("SU", (rng.choice(T),), [], [])); kinds.append("E")
         elif r < 0.36:
             ops.append(("R", (rng.choice(T), rng.choice(E)), [], [])); kinds.append("T")
         elif r < 0.44:
             a, b = sorted(rng.choices(range(-1, NPT + 1), k=2))
-            ops.append(("G", (rng.choice(T), lat(a), lat(b)), [], [])); kinds.append("T")
+            ops.append(("G", (rng.choice(T), pos(a), pos(b)), [], [])); kinds.append("T")
         elif r < 0.52:
             ops.append(("C", (rng.choice(T), rng.choice(E), lat(rng.choice([1, 2, 3]))), [], [])); kinds.append("T")
         elif r < 0.58:
@@ -184,8 +189,11 @@ def gen_history(rng, length):
     return ops
 
 
-def apply_real(R, op, rng, hook=None):
-    """executes one modelled op on the implementation; returns (real object, model code string)"""
+def apply_real(R, op, rng, hook=None, forms=None, stats=None):
+    """executes one modelled op on the implementation; returns (real object, model code string).
+    forms = a random.Random: every argument of the call is given in a drawn FORM (apply_real_forms); None = the most common form"""
+    if forms is not None:
+        return apply_real_forms(R, op, rng, forms, stats)
     nap = R.nap
     k, a, l1, l2 = op
     code = None
@@ -299,11 +307,18 @@ def pick_series(R, rng):
     return rng.choice(pool)
 
 
-def unmodelled_calls(R, name, rng, info=None):
-    """one unmodelled operation on objects of the real store: returns a list of (sub-operation label, thunk); every thunk is one public
+def unmodelled_calls(R, name, rng, info=None, forms=None, stats=None):
+    """one unmodelled operation on objects of the real store: returns a list of (sub-operation label, thunk, reference thunk or None); every thunk is one public
     call (or a short chain) whose result - an object, or a list / dict of objects - is checked and fed to later operations.
-    `info` (a dict) receives the class and size class of the input that was drawn."""
+    `info` (a dict) receives the class and size class of the input that was drawn.
+    forms = a random.Random: the FORM families are available and the input of every family is re-cast with drawn dtype / t form / unit / column labels"""
     nap = R.nap
+    if name in FORM_FAMILY_SET:
+        return form_calls(R, name, rng, forms, info, stats) if forms is not None else []
+    as_class_ = as_class
+    if forms is not None:
+        def as_class_(nap_, x_, cls_, sup_=None):
+            return make_series(nap_, cls_, np.asarray(x_.t), forms, x_.time_support if sup_ is None else sup_, stats)
     x = pick_series(R, rng)
     if x is None:
         return []
@@ -314,13 +329,13 @@ def unmodelled_calls(R, name, rng, info=None):
     cls = class_name(nap, x)
     if rng.random() < 0.5:
         cls = rng.choice(CLASSES)
-        X = x if cls == class_name(nap, x) else as_class(nap, x, cls)
+        X = x if (cls == class_name(nap, x) and forms is None) else as_class_(nap, x, cls)
     else:
         X = x
-    XD = X if cls != "Ts" else as_class(nap, X, "Tsd")       # a data-carrying version
-    xd = X if cls == "Tsd" else as_class(nap, X, "Tsd")      # a 1-d version
-    xts = X if cls == "Ts" else as_class(nap, X, "Ts")
-    yd = y if isinstance(y, nap.Tsd) else as_class(nap, y, "Tsd")
+    XD = X if cls != "Ts" else as_class_(nap, X, "Tsd")       # a data-carrying version
+    xd = X if cls == "Tsd" else as_class_(nap, X, "Tsd")      # a 1-d version
+    xts = X if cls == "Ts" else as_class_(nap, X, "Ts")
+    yd = y if (isinstance(y, nap.Tsd) and forms is None) else as_class_(nap, y, "Tsd")
     n = len(X)
     if info is not None:
         info.update({"cls": cls, "len": "0" if n == 0 else "1" if n == 1 else "2+", "support": "empty" if len(X.time_support) == 0 else "1" if len(X.time_support) == 1 else "2+",
@@ -330,12 +345,12 @@ def unmodelled_calls(R, name, rng, info=None):
     t1 = float(X.t[-1]) if n else 10 * U2 / 1e9
     out = []
 
-    def add(sub, f):
-        out.append((sub, f))
+    def add(sub, f, ref=None):
+        out.append((sub, f, ref))
 
     if name == "as_class":
         for c in CLASSES:
-            add("as_" + c, lambda c=c: as_class(nap, x, c))
+            add("as_" + c, lambda c=c: as_class_(nap, x, c))
         # the public constructors WITHOUT a support (default support = [first, last]) in the three time units (seed C04-6: the default support built
         # in the caller's unit) and from the other accepted forms of t (a TsIndex, a list, a pandas Series with the times as index)
         tx = np.asarray(x.t)
@@ -344,7 +359,7 @@ def unmodelled_calls(R, name, rng, info=None):
             return out          # a series built from one instant has no positive duration: outside C04's hypothesis on starting objects (zero-span quirk, DESIGN 10.4)
         for u, f in (("s", 1.0), ("ms", 1e3), ("us", 1e6)):
             add("ctor_default_support_Ts_" + u, lambda u=u, f=f: nap.Ts(tx * f, time_units=u))
-            add("ctor_default_support_Tsd_" + u, lambda u=u, f=f: nap.Tsd(tx * f, dx.copy(), time_units=u))      # (a fresh data array per object: the constructors keep the caller's array)
+            add("ctor_default_support_Tsd_" + u, lambda u=u, f=f: nap.Tsd(tx * f, dx.copy(), time_units=u))
         add("ctor_default_support_TsdFrame_ms", lambda: nap.TsdFrame(tx * 1e3, np.stack([dx, dx * 2], 1), time_units="ms"))
         add("ctor_default_support_TsdTensor_us", lambda: nap.TsdTensor(tx * 1e6, np.stack([dx, dx * 2], 1).reshape(len(tx), 2, 1), time_units="us"))
         add("ctor_from_TsIndex", lambda: nap.Tsd(x.index, dx.copy(), time_support=x.time_support))
@@ -354,9 +369,9 @@ def unmodelled_calls(R, name, rng, info=None):
         # the modelled operations, on all four classes and on degenerate inputs
         a_, b_ = sorted(rng.choices(range(-1, NPT + 1), k=2))
         add("restrict", lambda: X.restrict(ep))
-        add("get_window", lambda: X.get(lat(a_) / 1e9, lat(b_) / 1e9))
+        add("get_window", lambda: X.get((lat(a_) + R.off) / 1e9, (lat(b_) + R.off) / 1e9))
         add("get_point_window", lambda: X.get(t0, t0))
-        add("get_nearest", lambda: X.get(lat(a_) / 1e9))
+        add("get_nearest", lambda: X.get((lat(a_) + R.off) / 1e9))
         add("count_ep", lambda: X.count(b, ep))
         add("count", lambda: X.count(b))
         add("count_nobin", lambda: X.count(ep=ep))
@@ -364,8 +379,8 @@ def unmodelled_calls(R, name, rng, info=None):
         add("value_from", lambda: X.value_from(yd))
         add("copy", lambda: X.copy())
         add("support", lambda: X.time_support)
-        add("time_support_ctor", lambda: as_class(nap, X.restrict(ep), cls))
-        add("ctor_dropping_samples_outside", lambda: as_class(nap, X, cls, ep))
+        add("time_support_ctor", lambda: as_class_(nap, X.restrict(ep), cls))
+        add("ctor_dropping_samples_outside", lambda: as_class_(nap, X, cls, ep))
         return out
     if name == "dropna_threshold":
         if cls == "Ts":
@@ -401,7 +416,7 @@ def unmodelled_calls(R, name, rng, info=None):
             raw = nap.IntervalSet(start=np.array(st) * U2 / 1e9, end=np.array(en) * U2 / 1e9)
         add("ctor", lambda: raw)
         add("restrict", lambda: X.restrict(raw))
-        add("as_time_support", lambda: as_class(nap, X, cls, raw))
+        add("as_time_support", lambda: as_class_(nap, X, cls, raw))
         add("ts_as_time_support", lambda: nap.Ts(np.asarray(X.t), time_support=raw))
         add("restrict_count", lambda: X.restrict(raw).count(b))
         return out
@@ -412,7 +427,7 @@ def unmodelled_calls(R, name, rng, info=None):
         add("own_support", lambda: X.bin_average(b))
         return out
     if name == "frame_bin_average":
-        fr = as_class(nap, X, "TsdFrame")
+        fr = as_class_(nap, X, "TsdFrame")
         add("frame", lambda: fr)
         add("bin_average", lambda: fr.bin_average(b, ep))
         add("restrict", lambda: fr.restrict(ep))
@@ -483,7 +498,7 @@ def unmodelled_calls(R, name, rng, info=None):
     if name == "make_group":
         keys = rng.sample([0, 1, 3, 4, 7, 9], 3)
         mem = {keys[0]: nap.Ts(np.asarray(x.t)), keys[1]: nap.Ts(np.asarray(y.t)), keys[2]: nap.Ts(np.asarray(x.t)[::2])}
-        memsup = {keys[0]: xts, keys[1]: as_class(nap, y, "Ts"), keys[2]: xd}
+        memsup = {keys[0]: xts, keys[1]: as_class_(nap, y, "Ts"), keys[2]: xd}
         sup = x.time_support.union(y.time_support)
         meta = {"lab": [int(k) * 10 for k in sorted(keys)]}
         add("explicit_support", lambda: nap.TsGroup(mem, time_support=sup, metadata=meta))
@@ -640,7 +655,11 @@ def unmodelled_calls(R, name, rng, info=None):
     if name == "off_lattice":
         # timestamps and support edges OFF the lattice: arbitrary float64 instants, edges equal to samples or 0.5 us / 1 us away from them
         m = rng.randint(0, 7)
-        base = sorted(rng.uniform(0.0, 1.0) for _ in range(m))
+        lo_ = 0.0
+        if forms is not None:                       # placement: off-lattice instants below 0, across 0, at 1e5 s
+            lo_ = forms.choice([0.0, -1.0, -0.5, -1e3, 1e5])
+            _note(stats, "off_lattice_origin:%g" % lo_)
+        base = sorted(rng.uniform(0.0, 1.0) + lo_ for _ in range(m))
         if m >= 2 and rng.random() < 0.3:
             base[1] = base[0]
         tt = np.array(base)
@@ -648,7 +667,7 @@ def unmodelled_calls(R, name, rng, info=None):
         for v in base:
             edges.add(v + rng.choice([0.0, 5e-7, -5e-7, 1e-6, -1e-6, 1e-9, -1e-9]))
         while len(edges) < 6:
-            edges.add(rng.uniform(-0.1, 1.1))
+            edges.add(rng.uniform(-0.1, 1.1) + lo_)
         ed = sorted(rng.sample(sorted(edges), 2 * rng.randint(1, 3)))
         if len(ed) >= 4 and rng.random() < 0.4:
             ed[2] = ed[1] + rng.choice([0.0, 5e-7, 1e-6, 2e-6])      # touching / closer than the 1 us separation
@@ -657,10 +676,10 @@ def unmodelled_calls(R, name, rng, info=None):
             warnings.simplefilter("ignore")
             sup = nap.IntervalSet(start=np.array(ed[0::2]), end=np.array(ed[1::2]))
         c2 = rng.choice(CLASSES)
-        Z0 = as_class(nap, nap.Ts(tt), c2) if m else as_class(nap, nap.Ts(np.array([])), c2)
+        Z0 = as_class_(nap, nap.Ts(tt), c2) if m else as_class_(nap, nap.Ts(np.array([])), c2)
         add("support", lambda: sup)
         add("ctor_default_support", lambda: Z0)
-        add("ctor_support", lambda: as_class(nap, nap.Ts(tt, time_support=sup), c2))
+        add("ctor_support", lambda: as_class_(nap, nap.Ts(tt, time_support=sup), c2))
         add("restrict", lambda: Z0.restrict(sup))
         add("restrict_count", lambda: Z0.restrict(sup).count(1e-1))
         add("count_ep", lambda: Z0.count(1e-1, sup))
@@ -689,18 +708,32 @@ def flatten_outputs(nap, y):
     return []
 
 
-def run_unmodelled(R, name, rng, exc=None, info=None):
+def run_unmodelled(R, name, rng, exc=None, info=None, forms=None, stats=None, form_diff=None):
     """runs every call of one unmodelled operation; an exception of one call does not discard the results of the others.
-    returns [(sub-operation label, object)]; exceptions are appended to `exc` as (label, text)"""
+    returns [(sub-operation label, object)]; exceptions are appended to `exc` as (label, text).  When a call comes with a REFERENCE (the same call in the most
+    common form of its arguments) and both produce objects, their timestamps and supports must be equal: differences are appended to `form_diff`."""
     outs = []
-    for sub, f in unmodelled_calls(R, name, rng, info):
+    nap = R.nap
+    for sub, f, ref in unmodelled_calls(R, name, rng, info, forms, stats):
         try:
             y = f()
         except Exception as ex:  # no object is produced
             if exc is not None:
                 exc.append(("unmodelled:%s/%s" % (name, sub), type(ex).__name__ + ": " + str(ex)[:200]))
             continue
-        outs.extend((sub, z) for z in flatten_outputs(R.nap, y))
+        zs = flatten_outputs(nap, y)
+        outs.extend((sub, z) for z in zs)
+        if ref is not None and form_diff is not None and zs:
+            try:
+                yr = ref()
+            except Exception:
+                yr = None
+            if flatten_outputs(nap, yr):
+                if stats is not None:
+                    stats.append("reference_compared")
+                a_, b_ = abstract_any(nap, y), abstract_any(nap, yr)
+                if a_ != b_:
+                    form_diff.append(("unmodelled:%s/%s" % (name, sub), a_[:400], b_[:400]))
     return outs
 
 
@@ -709,11 +742,21 @@ def apply_unmodelled(R, name, rng):
     return [o for _, o in run_unmodelled(R, name, rng)]
 
 
-def run_history(nap, seed, hid, length, n_unmodelled, with_snapshots=False):
-    """executes one history. returns dict(model_codes, real_abstract, wf_failures, snapshot_failures, ops, exceptions)"""
+def run_history(nap, seed, hid, length, n_unmodelled, with_snapshots=False, forms=False):
+    """executes one history. returns dict(model_codes, real_abstract, wf_failures, snapshot_failures, ops, exceptions).
+    forms=True: every call is made with its arguments in drawn FORMS (a second generator derived from the seed draws them), the history is translated by a drawn
+    offset, the FORM families are interleaved with the others; the keys `forms` (labels drawn) and `form_diff` (calls whose result differs from the reference form)"""
     rng = random.Random(seed * 1000003 + hid)
-    ops = gen_history(rng, length)
+    frng = random.Random((seed * 1000003 + hid) * 7 + 3) if forms else None
+    offset = frng.choice(OFFSETS) if forms else 0
+    ops = gen_history(rng, length, offset)
     R = Real(nap)
+    R.off = offset
+    stats = [] if forms else None
+    form_diff = []
+    families = UNMODELLED + FORM_FAMILIES if forms else UNMODELLED
+    if forms:
+        stats.append("history_offset:" + {0: "none", -12 * U2: "across_zero", -40 * U2: "negative", 25600000 * U2: "plus_1e5_s"}[offset])
     codes, abstracts, wf_fail, snap_fail, exc, unm_done, unm_inputs, skipped, wf_keys = [], [], [], [], [], [], [], [], []
     n_checked = 0
 
@@ -734,7 +777,7 @@ def run_history(nap, seed, hid, length, n_unmodelled, with_snapshots=False):
     for step, op in enumerate(ops):
         if op[0] == "TS" and len(R.ep_of(op[1][0])) == 0:
             skipped.append("time_span_of_empty_set")
-        r = guard("op%d:%s" % (step, op[0]), lambda: apply_real(R, op, rng))
+        r = guard("op%d:%s" % (step, op[0]), lambda: apply_real(R, op, rng, None, frng, stats))
         if r is None:
             break
         o, code = r
@@ -749,9 +792,9 @@ def run_history(nap, seed, hid, length, n_unmodelled, with_snapshots=False):
                             "zero_span_input": None})
         # interleave unmodelled operations
         if n_unmodelled and step >= 2 and rng.random() < n_unmodelled:
-            name = rng.choice(UNMODELLED)
+            name = rng.choice(families)
             info = {}
-            outs = guard("unmodelled:" + name, lambda: run_unmodelled(R, name, rng, exc, info))
+            outs = guard("unmodelled:" + name, lambda: run_unmodelled(R, name, rng, exc, info, frng, stats, form_diff))
             unm_done.append(name)
             unm_inputs.append(info)
             for sub, y in outs or []:
@@ -763,4 +806,1069 @@ def run_history(nap, seed, hid, length, n_unmodelled, with_snapshots=False):
                     wf_keys.append({"op": sub.split("@")[0], "family": name, "variant": sub.split("@")[1] if "@" in sub else None, "clause": w[0],
                                     "result": class_name(nap, y), "zero_span_default_support": w[2], "zero_span_input": info.get("zero_span_input")})
     return {"codes": codes, "abstracts": abstracts, "wf": wf_fail, "snap": snap_fail, "exc": exc, "ops": ops, "unmodelled": unm_done,
-            "unmodelled_inputs": unm_inputs, "skipped": skipped, "n_checked": n_checked, "wf_keys": wf_keys}
+            "unmodelled_inputs": unm_inputs, "skipped": skipped, "n_checked": n_checked, "wf_keys": wf_keys, "forms": [f for f in (stats or []) if f != "reference_compared"], "form_diff": form_diff, "offset": offset,
+            "n_ref": sum(1 for f in (stats or []) if f == "reference_compared")}
+
+
+# ------------------------------------------------------------------------------------------------------
+# ARGUMENT FORMS (C04 widening).  Every helper draws from `frng` (a random.Random derived from the seed) and appends the labels of
+# the forms it chose to `stats` (the check counts them: distribution "form:<label>").  A form never changes the INSTANTS of a call:
+# unit changes are made only on the dyadic lattice (multiples of 2^-9 s below 2^20 s), where x*1e3, x*1e6 and the way back are exact.
+DTYPE_DRAW = ("float64",) * 6 + ("float32", "float32", "int64", "int64", "int32", "int16", "int8", "uint8", "uint8", "uint16", "uint32", "uint64", "bool")
+CONTENT_DRAW = ("plain",) * 8 + ("nan", "inf", "-inf", "inf_and_-inf", "zeros", "all_equal")
+UNITS = (("s", 1.0), ("ms", 1e3), ("us", 1e6))
+T_KINDS = ("ndarray", "ndarray", "list", "tuple", "pd_index", "pd_series", "tsindex", "tsindex", "view", "int_array", "float32", "scalar")
+COLUMN_DRAW = (None, None, ["a", "b", "c"], [10, 3, 7], [2, 0, 1], ["10", "2", "b"], [1.5, 0.5, 2.5])
+OFFSETS = (0, 0, 0, -12 * U2, -40 * U2, 25600000 * U2)        # none / straddling 0 / all negative / 1e5 s
+
+
+def _note(stats, *labels):
+    if stats is not None:
+        stats.extend(labels)
+
+
+def on_lattice(ts):
+    """every value a multiple of 2^-9 s, below 2^20 s in magnitude: unit changes are exact"""
+    a = np.asarray(ts, dtype=np.float64).ravel()
+    return bool(np.all(np.isfinite(a)) and np.all(a * 512 == np.round(a * 512)) and np.all(np.abs(a) < 2 ** 20))
+
+
+def unit_form(ts, frng, p=0.5):
+    """(unit, factor): another time unit only where the conversion is exact"""
+    if on_lattice(ts) and frng.random() < p:
+        return frng.choice(UNITS[1:])
+    return UNITS[0]
+
+
+def scalar_form(v, frng, stats=None, tag="scalar", np32=False, npint=True):
+    """one instant / duration as a Python float, a numpy float64 scalar, a Python int / numpy integer (when integral; numpy integers unless npint=False: count's bin_size is
+    documented as `float or int` and refuses them), a numpy float32 scalar (np32=True, when the value is exact in float32: the library rounds such a scalar in float32
+    arithmetic, so it is used only in calls WITHOUT a reference / model comparison)"""
+    v = float(v)
+    c = ["float", "float", "np.float64"]
+    if np32 and float(np.float32(v)) == v:
+        c.append("np.float32")
+    if v == int(v) and abs(v) < 2 ** 31:
+        c += ["int", "int"]
+        if npint:
+            c += ["np.int64", "np.int32", "np.uint16" if 0 <= v < 2 ** 16 else "np.int64"]
+    k = frng.choice(c)
+    _note(stats, tag + ":" + k)
+    if k == "float":
+        return v
+    if k == "int":
+        return int(v)
+    return getattr(np, k[3:])(v)
+
+
+def t_form(nap, ts, frng, stats=None, kinds=T_KINDS):
+    """the instants `ts` (canonical float64 seconds) as another accepted form of a `t` argument: returns (t, time_units, kind)"""
+    ts = np.asarray(ts, dtype=np.float64)
+    kind = frng.choice(kinds)
+    unit, f = unit_form(ts, frng) if kind != "tsindex" else UNITS[0]
+    sc = ts * f
+    if kind == "int_array":
+        ok = len(sc) and np.all(sc == np.round(sc)) and np.all(np.abs(sc) < 2 ** 62)
+        if not ok and on_lattice(ts) and len(ts) and np.all((ts * 512) % 2 == 0):
+            unit, f = "us", 1e6                      # the history lattice (2^-8 s) holds whole numbers of quarter-microseconds: x4 steps are whole us
+            sc = ts * f
+            ok = np.all(sc == np.round(sc))
+        if ok:
+            lo, hi = float(sc.min()), float(sc.max())
+            cands = [d for d in ("int64", "int32", "int16", "int8", "uint8", "uint16", "uint32", "uint64") if np.iinfo(d).min <= lo and hi <= np.iinfo(d).max]
+            dt = frng.choice(cands)
+            _note(stats, "t_dtype:" + dt)
+            t = sc.astype(dt)
+        else:
+            kind, t = "ndarray", sc
+    elif kind == "float32":
+        if len(sc) and np.array_equal(sc.astype(np.float32).astype(np.float64), sc):
+            t = sc.astype(np.float32)
+        else:
+            kind, t = "ndarray", sc
+    elif kind == "scalar":
+        if len(sc) == 1:
+            t = scalar_form(sc[0], frng, stats, "t_scalar")
+        else:
+            kind, t = "list", [float(v) for v in sc]
+    elif kind == "list":
+        t = [float(v) for v in sc]
+    elif kind == "tuple":
+        t = tuple(float(v) for v in sc)
+    elif kind == "pd_index":
+        import pandas as pd
+        t = pd.Index(sc, dtype=np.float64)
+    elif kind == "pd_series":
+        import pandas as pd
+        t = pd.Series(sc, dtype=np.float64)
+    elif kind == "tsindex":
+        t = nap.Ts(ts).index                         # another object's TsIndex (already in seconds)
+    elif kind == "view":
+        t = np.repeat(sc, 2)[::2]                    # a strided view on a larger buffer
+    else:
+        t = sc
+    _note(stats, "t:" + kind, "unit:" + unit)
+    return t, unit, kind
+
+
+def d_form(n, tail, frng, stats=None, content=None, dtypes=DTYPE_DRAW):
+    """n rows of data (small whole numbers) of a drawn dtype and content (NaN / +inf / -inf rows, zeros, all-equal), sometimes as a Python list"""
+    dt = frng.choice(dtypes)
+    size = n * int(np.prod(tail)) if tail else n
+    base = (np.arange(size) % 7 + 1).reshape((n,) + tuple(tail))
+    d = (base % 2 == 0) if dt == "bool" else base.astype(dt)
+    c = content or frng.choice(CONTENT_DRAW)
+    if c == "zeros":
+        d = np.zeros_like(d)
+    elif c == "all_equal":
+        d = np.ones_like(d) if dt == "bool" else np.full_like(d, 3)
+    elif c in ("nan", "inf", "-inf", "inf_and_-inf") and dt.startswith("float") and n:
+        rows = [i for i in range(n) if frng.random() < 0.4] or [frng.randrange(n)]
+        for i in rows:
+            if c == "inf_and_-inf" and d[i].size >= 2:
+                d[i].flat[0], d[i].flat[1] = np.inf, -np.inf
+            elif d.ndim == 1:
+                d[i] = {"nan": np.nan, "inf": np.inf, "-inf": -np.inf}.get(c, np.inf)
+            else:
+                d[i].flat[frng.randrange(d[i].size)] = {"nan": np.nan, "inf": np.inf, "-inf": -np.inf}.get(c, -np.inf)
+    else:
+        c = "plain"
+    _note(stats, "dtype:" + dt, "content:" + c)
+    if n and frng.random() < 0.08:
+        _note(stats, "d:list")
+        return d.tolist()
+    return d
+
+
+def make_series(nap, cls, ts, frng, sup=None, stats=None, content=None, dtypes=DTYPE_DRAW, kinds=T_KINDS):
+    """the instants `ts` under class `cls` through the public constructor, every argument in a drawn form (t: ndarray / list / tuple / pandas / TsIndex / view /
+    integer or float32 array / scalar; unit s / ms / us; data dtype and content; positional or keyword arguments; TsdFrame column labels, DataFrame input, metadata)"""
+    import pandas as pd
+    ts = np.asarray(ts, dtype=np.float64)
+    n = len(ts)
+    t, unit, kind = t_form(nap, ts, frng, stats, kinds)
+    kw = frng.random() < 0.5
+    _note(stats, "cls:" + cls, "args:keyword" if kw else "args:positional", "support:given" if sup is not None else "support:default")
+    if cls == "Ts":
+        return nap.Ts(t=t, time_units=unit, time_support=sup) if kw else nap.Ts(t, unit, sup)
+    if cls == "Tsd":
+        d = d_form(n, (), frng, stats, content, dtypes)
+        if kind == "pd_series":                      # Tsd(Series): the index holds the times, the values the data
+            _note(stats, "Tsd_from_Series")
+            return nap.Tsd(pd.Series(index=np.asarray(t), data=d), time_units=unit, time_support=sup)
+        return nap.Tsd(t=t, d=d, time_units=unit, time_support=sup) if kw else nap.Tsd(t, d, unit, sup)
+    if cls == "TsdFrame":
+        d = d_form(n, (3,), frng, stats, content, dtypes)
+        cols = frng.choice(COLUMN_DRAW)
+        _note(stats, "columns:" + ("default" if cols is None else "strings" if all(isinstance(c, str) for c in cols) else "floats" if isinstance(cols[0], float) else "ints_not_0..n-1" if sorted(cols) != [0, 1, 2] else "ints_unsorted"))
+        meta = {"m": [1, 2, 3]} if frng.random() < 0.2 else None
+        if meta:
+            _note(stats, "frame_metadata")
+        if frng.random() < 0.15 and not isinstance(t, (int, float, np.number)):
+            _note(stats, "TsdFrame_from_DataFrame")
+            df = pd.DataFrame(index=np.asarray(t, dtype=np.float64), data=np.asarray(d), columns=cols)
+            return nap.TsdFrame(df, time_units=unit, time_support=sup, metadata=meta)
+        la = frng.random() < 0.8 or not isinstance(d, np.ndarray)         # load_array=False is documented for array-like data only
+        return (nap.TsdFrame(t=t, d=d, time_units=unit, time_support=sup, columns=cols, load_array=la, metadata=meta) if kw
+                else nap.TsdFrame(t, d, unit, sup, cols, la, meta))
+    tail = frng.choice([(2, 2), (1, 3), (2, 1, 2)])
+    d = d_form(n, tail, frng, stats, content, dtypes)
+    return nap.TsdTensor(t=t, d=d, time_units=unit, time_support=sup) if kw else nap.TsdTensor(t, d, unit, sup)
+
+
+def recast(nap, x, frng, stats=None, cls=None, sup=None, content=None, dtypes=DTYPE_DRAW):
+    """x's timestamps (and support) under a drawn class / dtype / argument form"""
+    return make_series(nap, cls or frng.choice(CLASSES), np.asarray(x.t), frng, x.time_support if sup is None else sup, stats, content, dtypes)
+
+
+def ep_form(nap, ep, frng, stats=None):
+    """the interval set `ep` (canonical) rebuilt through another accepted form of the IntervalSet constructor, or itself"""
+    import pandas as pd
+    v = np.asarray(ep.values, dtype=np.float64)
+    n = len(v)
+    k = frng.choice(["same", "same", "copy_ctor", "metadata", "unit", "lists", "tuples", "two_columns", "dataframe", "series", "keywords", "int_arrays", "view", "scalars"])
+    if k == "same":
+        out = ep
+    elif k == "copy_ctor":
+        out = nap.IntervalSet(ep)
+    elif k == "metadata":
+        out = nap.IntervalSet(v[:, 0], v[:, 1], metadata={"lab": np.arange(n) * 10, "name": ["i%d" % i for i in range(n)]})
+    elif k == "unit":
+        u, f = unit_form(v, frng, 1.0)
+        k = "unit_" + u
+        out = nap.IntervalSet(v[:, 0] * f, v[:, 1] * f, u) if frng.random() < 0.5 else nap.IntervalSet(start=v[:, 0] * f, end=v[:, 1] * f, time_units=u)
+    elif k == "lists":
+        out = nap.IntervalSet([float(a) for a in v[:, 0]], [float(a) for a in v[:, 1]])
+    elif k == "tuples":
+        out = nap.IntervalSet(tuple(float(a) for a in v[:, 0]), tuple(float(a) for a in v[:, 1]))
+    elif k == "two_columns" and n:
+        out = nap.IntervalSet(v.copy()) if frng.random() < 0.5 else nap.IntervalSet([(float(a), float(b)) for a, b in v])
+    elif k == "dataframe":
+        out = nap.IntervalSet(pd.DataFrame({"start": v[:, 0], "end": v[:, 1]}))
+    elif k == "series":
+        out = nap.IntervalSet(pd.Series(v[:, 0], dtype=np.float64), pd.Series(v[:, 1], dtype=np.float64))
+    elif k == "keywords":
+        out = nap.IntervalSet(end=v[:, 1].copy(), start=v[:, 0].copy(), time_units="s", metadata=None)
+    elif k == "int_arrays" and n and on_lattice(v) and np.all((v * 512) % 2 == 0):
+        us = v * 1e6                                      # whole microseconds when every edge is a multiple of 4 lattice steps; else whole quarter-us are not integers
+        if np.all(us == np.round(us)):
+            cands = [d for d in ("int64", "uint64", "uint32", "int32") if np.iinfo(d).min <= us.min() and us.max() <= np.iinfo(d).max]
+            dt = frng.choice(cands)
+            k = "int_arrays_" + dt
+            out = nap.IntervalSet(us[:, 0].astype(dt), us[:, 1].astype(dt), time_units="us")
+        else:
+            k, out = "same", ep
+    elif k == "view":
+        out = nap.IntervalSet(np.repeat(v[:, 0], 2)[::2], v[:, 1])
+    elif k == "scalars" and n == 1:
+        out = nap.IntervalSet(scalar_form(v[0, 0], frng, stats, "ep_scalar"), scalar_form(v[0, 1], frng, stats, "ep_scalar"))
+    else:
+        k, out = "same", ep
+    _note(stats, "ep:" + k)
+    return out
+
+
+def _call(f, pos, kw, frng, stats=None, tag="call"):
+    """f called with its leading arguments positionally and the rest by keyword: `pos` = [(name, value)], cut at a drawn place; `kw` = extra keyword arguments
+    (optional parameters given explicitly)"""
+    cut = frng.randint(0, len(pos))
+    _note(stats, tag + (":all_positional" if cut == len(pos) else ":all_keyword" if cut == 0 else ":mixed"))
+    kws = {k: v for k, v in pos[cut:]}
+    kws.update(kw)
+    return f(*[v for _, v in pos[:cut]], **kws)
+
+
+def apply_real_forms(R, op, rng, frng, stats=None):
+    """apply_real with every argument of the modelled operation in a drawn FORM (same instants, same call): the abstract result (timestamps, support) must still be
+    the model's.  `rng` is consumed exactly as apply_real consumes it (the masks of T / D)."""
+    nap = R.nap
+    k, a, l1, l2 = op
+
+    def recv(i, data=False):
+        x = R.ts_of(i)
+        # (a series emptied by its constructor keeps the support it was given: no constructor call on its own - empty - timestamps rebuilds it, so it is used as it is)
+        if frng.random() < 0.5 and not (len(x) == 0 and len(x.time_support) and not (data and isinstance(x, nap.Ts))):
+            c = frng.choice(CLASSES[1:] if data else CLASSES)
+            return recast(nap, x, frng, stats, c)
+        if data and isinstance(x, nap.Ts):
+            return recast(nap, x, frng, stats, frng.choice(CLASSES[1:]))
+        return x
+
+    _note(stats, "modelled_op_in_forms:" + k)
+    if k == "MT":
+        o = make_series(nap, frng.choice(CLASSES), G.arr(l1), frng, None, stats)
+        return o, "MT : " + C.fmt_ints(l1)
+    if k == "MS":
+        o = make_series(nap, frng.choice(CLASSES), G.arr(l1), frng, ep_form(nap, R.ep_of(a[0]), frng, stats), stats)
+        return o, "MS %d : %s" % (a[0], C.fmt_ints(l1))
+    if k == "ME":
+        import pandas as pd
+        s_, e_ = G.arr(l1), G.arr(l2)
+        u, f = unit_form(np.concatenate([s_, e_]), frng)
+        form = frng.choice(["arrays", "lists", "tuples", "series", "keywords", "two_columns", "dataframe", "metadata", "scalars"])
+        if form == "lists":
+            o = nap.IntervalSet([float(v) for v in s_ * f], [float(v) for v in e_ * f], u)
+        elif form == "tuples":
+            o = nap.IntervalSet(tuple(float(v) for v in s_ * f), tuple(float(v) for v in e_ * f), time_units=u)
+        elif form == "series":
+            o = nap.IntervalSet(pd.Series(s_ * f, dtype=np.float64), pd.Series(e_ * f, dtype=np.float64), time_units=u)
+        elif form == "keywords":
+            o = nap.IntervalSet(end=e_ * f, start=s_ * f, time_units=u, metadata=None)
+        elif form == "two_columns" and len(s_):
+            o = nap.IntervalSet(np.stack([s_ * f, e_ * f], 1), time_units=u)
+        elif form == "dataframe":
+            o = nap.IntervalSet(pd.DataFrame({"start": s_ * f, "end": e_ * f}), time_units=u)
+        elif form == "metadata":
+            o = nap.IntervalSet(s_ * f, e_ * f, u, {"lab": list(range(len(s_)))})
+        elif form == "scalars" and len(s_) == 1:
+            o = nap.IntervalSet(scalar_form(s_[0] * f, frng, stats, "ep_scalar"), scalar_form(e_[0] * f, frng, stats, "ep_scalar"), u)
+        else:
+            form = "arrays"
+            o = nap.IntervalSet(s_ * f, e_ * f, u)
+        _note(stats, "ME:" + form, "unit:" + u)
+        return o, "ME : %s : %s" % (C.fmt_ints(l1), C.fmt_ints(l2))
+    if k == "SU":
+        return recv(a[0]).time_support, "SU %d" % a[0]
+    if k == "R":
+        x, ep = recv(a[0]), ep_form(nap, R.ep_of(a[1]), frng, stats)
+        o = _call(x.restrict, [("iset", ep)], {}, frng, stats, "restrict")
+        return o, "R %d %d" % a
+    if k == "G":
+        x = recv(a[0])
+        s_, e_ = a[1] / 1e9, a[2] / 1e9
+        u, f = unit_form([s_, e_], frng)
+        kw = {"time_units": u} if (u != "s" or frng.random() < 0.3) else {}
+        o = _call(x.get, [("start", scalar_form(s_ * f, frng, stats, "get_scalar")), ("end", scalar_form(e_ * f, frng, stats, "get_scalar"))] + ([("time_units", kw.pop("time_units"))] if kw and frng.random() < 0.5 else []),
+                  kw, frng, stats, "get")
+        _note(stats, "unit:" + u)
+        return o, "G %d %d %d" % a
+    if k == "C":
+        x, ep = recv(a[0]), ep_form(nap, R.ep_of(a[1]), frng, stats)
+        b = 2 * a[2] / 1e9
+        u, f = unit_form([b], frng)
+        dt = frng.choice([None, None, np.int64, np.float64, "int32", np.uint8, np.float32, bool])
+        pos = [("bin_size", scalar_form(b * f, frng, stats, "bin_scalar", npint=False)), ("ep", ep)]
+        kw = {}
+        if u != "s" or dt is not None or frng.random() < 0.3:
+            pos.append(("time_units", u))
+            if dt is not None or frng.random() < 0.3:
+                pos.append(("dtype", dt))
+        _note(stats, "unit:" + u, "count_dtype:" + str(dt if not isinstance(dt, type) else dt.__name__))
+        o = _call(x.count, pos, kw, frng, stats, "count")
+        return o, "C %d %d %d" % a
+    if k == "V":
+        x, d, ep = recv(a[0]), recv(a[1], data=True), ep_form(nap, R.ep_of(a[2]), frng, stats)
+        pos = [("data", d), ("ep", ep)] + ([("mode", "closest")] if frng.random() < 0.4 else [])
+        o = _call(x.value_from, pos, {}, frng, stats, "value_from")
+        return o, "V %d %d %d" % a
+    if k in ("T", "D"):
+        x = R.ts_of(a[0])
+        n = len(x)
+        mask = [rng.randint(0, 1) for _ in range(n)]
+        m = np.asarray(mask, dtype=bool)
+        tx = np.asarray(x.t)
+        if k == "T":
+            method = frng.choice(["above", "above", "below", "aboveequal", "belowequal"])
+            dt = frng.choice(["float64", "float64", "float32", "int64", "int8", "uint8", "uint16", "bool"])
+            keep_high = method in ("above", "aboveequal")
+            d = (m if keep_high else ~m).astype(dt)                       # 1 where kept for above*, 0 where kept for below*
+            thr = {"above": 0.5, "below": 0.5, "aboveequal": 1, "belowequal": 0}[method]
+            thr = scalar_form(thr, frng, stats, "thr_scalar")
+            t, u, kind = t_form(nap, tx, frng, stats, tuple(q for q in T_KINDS if q != "pd_series"))
+            y = nap.Tsd(t, d, u, x.time_support) if frng.random() < 0.5 else nap.Tsd(t=t, d=d, time_units=u, time_support=x.time_support)
+            pos = [("thr", thr)] + ([("method", method)] if method != "above" or frng.random() < 0.5 else [])
+            o = _call(y.threshold, pos, {}, frng, stats, "threshold")
+            _note(stats, "threshold_method:" + method, "dtype:" + dt)
+        else:
+            cls = frng.choice(CLASSES[1:])
+            dt = frng.choice(["float64", "float64", "float32"])
+            tail = {"Tsd": (), "TsdFrame": (3,), "TsdTensor": (2, 2)}[cls]
+            d = (np.arange(n * int(np.prod(tail)) if tail else n) % 5 + 1.0).reshape((n,) + tail).astype(dt)
+            fill = frng.choice(["finite", "inf", "-inf", "inf_and_-inf"])
+            for i in range(n):
+                if not mask[i]:
+                    d[i] = np.nan if d.ndim == 1 else d[i]
+                    if d.ndim > 1:
+                        d[i].flat[frng.randrange(d[i].size)] = np.nan       # ONE NaN in the row
+                elif fill != "finite":
+                    if d.ndim == 1:
+                        d[i] = -np.inf if fill == "-inf" or (fill == "inf_and_-inf" and i % 2) else np.inf
+                    elif fill == "inf_and_-inf":
+                        d[i].flat[0], d[i].flat[1] = np.inf, -np.inf        # a kept row holding both infinities (their sum is NaN)
+                    else:
+                        d[i].flat[frng.randrange(d[i].size)] = np.inf if fill == "inf" else -np.inf
+            t, u, kind = t_form(nap, tx, frng, stats, tuple(q for q in T_KINDS if q != "pd_series"))
+            y = getattr(nap, cls)(t, d, u, x.time_support)
+            pos = [("update_time_support", True)] if frng.random() < 0.5 else []
+            o = _call(y.dropna, pos, {}, frng, stats, "dropna")
+            _note(stats, "dropna_class:" + cls, "dropna_kept_rows:" + fill, "dtype:" + dt)
+        return o, "%s %d : %s" % (k, a[0], C.fmt_ints(mask))
+    if k in ("U", "I", "F"):
+        e1 = ep_form(nap, R.ep_of(a[0]), frng, stats)
+        e2 = e1 if (a[0] == a[1] and frng.random() < 0.5) else ep_form(nap, R.ep_of(a[1]), frng, stats)     # the same live object used twice
+        f = {"U": e1.union, "I": e1.intersect, "F": e1.set_diff}[k]
+        return _call(f, [("a", e2)], {}, frng, stats, "setop"), "%s %d %d" % ((k,) + a)
+    if k == "TS":
+        e = ep_form(nap, R.ep_of(a[0]), frng, stats)
+        return (e.time_span() if len(e) else e), "TS %d" % a[0]
+    if k in ("DS", "MC"):
+        e = ep_form(nap, R.ep_of(a[0]), frng, stats)
+        th = a[1] / 1e9
+        u, f = unit_form([th], frng)
+        pos = [("threshold", scalar_form(th * f, frng, stats, "dur_scalar"))] + ([("time_units", u)] if u != "s" or frng.random() < 0.3 else [])
+        _note(stats, "unit:" + u)
+        g = e.drop_short_intervals if k == "DS" else e.merge_close_intervals
+        return _call(g, pos, {}, frng, stats, "dur_op"), "%s %d %d" % ((k,) + a)
+    raise ValueError(k)
+
+
+def each(*fs):
+    """the results of the thunks that do not raise (a list: every object is checked)"""
+    res = []
+    for f in fs:
+        try:
+            res.append(f())
+        except Exception:
+            pass
+    return res
+
+
+FORM_FAMILIES = ["f_ctor", "f_ctor", "f_int_times", "f_get", "f_index", "f_count", "f_bin_average", "f_value_from", "f_interpolate", "f_threshold", "f_dropna", "f_convolve", "f_smooth",
+                 "f_numpy", "f_concat_split", "f_group_ctor", "f_group_ctor", "f_group_ops", "f_group_empty", "f_merge", "f_to_tsd_tsgroup", "f_random", "f_perievent", "f_setops",
+                 "f_saveload", "f_placement", "f_chain"]
+
+
+def abstract_any(nap, y):
+    """timestamps and support of a result (an object, or a list / dict of objects); group members in key order"""
+    if isinstance(y, nap.TsGroup):
+        return "G[" + " ; ".join("%s=%s" % (k, norm_abs(abstract(nap, y[k]))) for k in y.keys()) + "] / " + norm_abs(abstract(nap, y.time_support))
+    if isinstance(y, (nap.Ts, nap.Tsd, nap.TsdFrame, nap.TsdTensor, nap.IntervalSet)):
+        return norm_abs(abstract(nap, y))
+    if isinstance(y, dict):
+        return "{" + " , ".join("%s:%s" % (k, abstract_any(nap, v)) for k, v in y.items()) + "}"
+    if isinstance(y, (list, tuple)):
+        return "(" + " , ".join(abstract_any(nap, v) for v in y) + ")"
+    return "other"
+
+
+def form_calls(R, name, rng, frng, info=None, stats=None):
+    """one FORM family on objects of the real store: list of (label, thunk, reference thunk or None).  Each thunk is one public call with its arguments in a drawn form;
+    when a reference is given it is the same call in the most common form and both must produce the same timestamps and support (checked by run_unmodelled: form_diff)."""
+    import pandas as pd
+    nap = R.nap
+    x = pick_series(R, rng)
+    if x is None:
+        return []
+    y = pick_series(R, rng)
+    eps = [o for o in R.objs + R.extra if isinstance(o, nap.IntervalSet)]
+    ep = rng.choice(eps) if eps and rng.random() < 0.85 else x.time_support
+    cls = frng.choice(CLASSES)
+    X = recast(nap, x, frng, stats, cls)                                     # the receiver, under a drawn class / dtype / form
+    n = len(X)
+    tx = np.asarray(X.t)
+    onl = on_lattice(tx) and on_lattice(X.time_support.values) and on_lattice(ep.values)
+    if info is not None:
+        info.update({"cls": cls, "len": "0" if n == 0 else "1" if n == 1 else "2+", "support": "empty" if len(X.time_support) == 0 else "1" if len(X.time_support) == 1 else "2+",
+                     "dup": bool(n >= 2 and np.any(np.diff(tx) == 0)), "zero_span_input": bool(n >= 1 and float(tx[0]) == float(tx[-1]))})
+    off = R.off / 1e9
+    b = (rng.choice([1, 2, 3]) * 2 * U2) / 1e9
+    t0 = float(tx[0]) if n else off
+    t1 = float(tx[-1]) if n else off + 10 * U2 / 1e9
+    out = []
+
+    def add(sub, f, ref=None):
+        out.append((sub, f, ref))
+
+    def data_of(c=None, content=None, dtypes=DTYPE_DRAW):
+        return recast(nap, X, frng, stats, c or frng.choice(CLASSES[1:]), content=content, dtypes=dtypes)
+
+    def u_of(vals, p=0.6):
+        return unit_form(vals, frng, p) if onl else UNITS[0]
+
+    if name == "f_ctor":
+        # every constructor x every form of t / unit / dtype / columns, with the default support, the receiver's support and another set; TsIndex of ANOTHER live object
+        if n and tx[0] == tx[-1]:
+            return out                                                    # one instant: no positive duration (hypothesis of C04 on starting objects)
+        for c in CLASSES:
+            add("default_support_" + c, lambda c=c: make_series(nap, c, tx, frng, None, stats))
+            add("own_support_" + c, lambda c=c: make_series(nap, c, tx, frng, X.time_support, stats), lambda c=c: as_class(nap, X, c))
+            add("other_support_" + c, lambda c=c: make_series(nap, c, tx, frng, ep_form(nap, ep, frng, stats), stats), lambda c=c: as_class(nap, X, c, ep))
+        add("live_TsIndex_Ts", lambda: nap.Ts(X.index), lambda: nap.Ts(tx))
+        add("live_TsIndex_Tsd_kw", lambda: nap.Tsd(t=X.index, d=np.arange(n), time_units="s", time_support=None), lambda: nap.Tsd(tx, np.arange(n)))
+        add("live_TsIndex_TsdFrame_support", lambda: nap.TsdFrame(X.index, np.zeros((n, 2)), time_support=ep), lambda: nap.TsdFrame(tx, np.zeros((n, 2)), time_support=ep))
+        add("live_TsIndex_TsdTensor", lambda: nap.TsdTensor(X.index, np.zeros((n, 2, 2), dtype=np.int16)), lambda: nap.TsdTensor(tx, np.zeros((n, 2, 2))))
+        add("live_TsIndex_slice", lambda: nap.Ts(X.index[1:]) if n >= 3 and tx[1] != tx[-1] else None, lambda: nap.Ts(tx[1:]) if n >= 3 and tx[1] != tx[-1] else None)
+        add("zero_d_array_t", lambda: nap.Ts(np.array(t0), time_support=X.time_support))                                   # not 1-dimensional: AssertionError, or well formed under a positive-duration support
+        add("unit_other_case", lambda: nap.Ts(tx, "MS"))
+        add("unsorted_list_ms", lambda: nap.Tsd([float(v) * 1e3 for v in tx[::-1]], list(range(n)), "ms") if onl else None, lambda: nap.Tsd(tx, np.arange(n)) if onl else None)
+        return out
+    if name == "f_int_times":
+        # integer-dtype time arrays (signed, unsigned, small widths) in the three units, sorted or not, for the series AND the support
+        m = frng.choice([0, 2, 3, 4, 5, 6])                                  # (one sample = one instant: no positive duration)
+        neg = frng.random() < 0.4
+        ks = [frng.randrange(-100 if neg else 0, 120) for _ in range(m)]
+        if m >= 2 and frng.random() < 0.7:
+            ks.sort()
+        if m >= 2 and len(set(ks)) == 1:
+            ks[-1] += 5
+        dts = [d for d in ("int64", "int32", "int16", "int8", "uint8", "uint16", "uint32", "uint64") if not (neg and d.startswith("u"))]
+        for c in CLASSES:
+            dt = frng.choice(dts)
+            u, f = frng.choice(UNITS)
+            ti = np.array(ks, dtype=dt)
+            tf = np.array(ks, dtype=np.float64) / f
+            _note(stats, "int_times:" + dt, "unit:" + u)
+            dd = {"Ts": None, "Tsd": np.arange(m), "TsdFrame": np.zeros((m, 2)), "TsdTensor": np.zeros((m, 2, 2))}[c]
+            K = getattr(nap, c)
+            add("default_support_%s" % c, (lambda K=K, ti=ti, u=u, dd=dd: K(ti, time_units=u) if dd is None else K(ti, dd, time_units=u)),
+                (lambda K=K, tf=tf, dd=dd: K(tf) if dd is None else K(tf, dd)))
+            e0, e1 = (min(ks) if ks else 0) + 1, (max(ks) if ks else 0) + 3
+            st, en = np.array([e0, e0 + 50], dtype=dt if e0 + 53 <= np.iinfo(dt).max else "int64"), np.array([e0 + 2, e0 + 53], dtype=dt if e0 + 53 <= np.iinfo(dt).max else "int64")
+            add("int_support_%s" % c, (lambda K=K, ti=ti, u=u, dd=dd, st=st, en=en: K(ti, time_units=u, time_support=nap.IntervalSet(st, en, u)) if dd is None
+                                       else K(ti, dd, time_units=u, time_support=nap.IntervalSet(st, en, time_units=u))),
+                (lambda K=K, tf=tf, dd=dd, st=st, en=en, f=f: K(tf, time_support=nap.IntervalSet(st.astype(float) / f, en.astype(float) / f)) if dd is None
+                 else K(tf, dd, time_support=nap.IntervalSet(st.astype(float) / f, en.astype(float) / f))))
+        # interval sets from unsigned / small integer arrays: unsorted starts, overlapping, touching
+        for j in range(3):
+            dt = frng.choice(["uint8", "uint16", "uint64", "int8", "int64", "uint32"])
+            pts = [frng.randrange(0, 100) for _ in range(2 * frng.randint(1, 3))]
+            st, en = np.array(pts[0::2], dtype=dt), np.array(pts[1::2], dtype=dt)
+            u, f = frng.choice(UNITS)
+            _note(stats, "int_support:" + dt)
+            add("intervalset_int_%d" % j, lambda st=st, en=en, u=u: nap.IntervalSet(st, en, u), lambda st=st, en=en, f=f: nap.IntervalSet(st.astype(np.float64) / f, en.astype(np.float64) / f))
+            add("restrict_int_support_%d" % j, lambda st=st, en=en, u=u: X.restrict(nap.IntervalSet(start=st, end=en, time_units=u)))
+        return out
+    if name == "f_get":
+        a_, b_ = sorted(rng.choices(range(-1, NPT + 1), k=2))
+        s_, e_ = (lat(a_) + R.off) / 1e9, (lat(b_) + R.off) / 1e9
+        for j in range(3):
+            u, f = u_of([s_, e_])
+            add("window_%d" % j, lambda u=u, f=f: _call(X.get, [("start", scalar_form(s_ * f, frng, stats, "get_scalar")), ("end", scalar_form(e_ * f, frng, stats, "get_scalar")), ("time_units", u)],
+                                                        {}, frng, stats, "get"), lambda: X.get(s_, e_))
+            add("nearest_%d" % j, lambda u=u, f=f: _call(X.get, [("start", scalar_form(s_ * f, frng, stats, "get_scalar")), ("end", None), ("time_units", u)], {}, frng, stats, "get"),
+                lambda: X.get(s_))
+        add("window_on_samples", lambda: X.get(np.float64(t0), t1), lambda: X.get(t0, t1))
+        add("window_float32_scalars", lambda: X.get(np.float32(s_), np.float32(e_)))          # (rounded by the library in float32 arithmetic: no reference)
+        add("nearest_float32_scalar", lambda: X.get(np.float32(t0)))
+        add("zero_d_array_bounds", lambda: X.get(np.array(s_), np.array(e_)))                  # not a number: ValueError, or a well-formed result
+        add("string_unit_other_case", lambda: X.get(s_, e_, "MS"))
+        add("get_slice_then_index", lambda: X[X.get_slice(s_, e_)], lambda: X.get(s_, e_))
+        add("get_slice_kw_unit", lambda: X[X.get_slice(start=s_ * 1e3, end=e_ * 1e3, time_unit="ms")] if onl else None, lambda: X.get(s_, e_) if onl else None)
+        add("int_bounds", lambda: X.get(int(np.floor(t0)), int(np.ceil(t1)) + 1), lambda: X.get(float(np.floor(t0)), float(np.ceil(t1)) + 1.0))
+        add("get_twice_same_object", lambda: [X.get(s_, e_), X.get(s_, e_).get(s_, e_)])
+        return out
+    if name == "f_index":
+        idx = list(range(n))
+        rng.shuffle(idx)
+        for dt in ("int64", "int32", "uint8", "int8"):
+            add("int_array_" + dt, lambda dt=dt: X[np.array(idx[:4], dtype=dt)], lambda: X[idx[:4]])
+        add("negative_indices", lambda: X[[-1, 0]] if n else None, lambda: X[[n - 1, 0]] if n else None)
+        add("negative_single", lambda: X[-1] if n else None)
+        add("np_int_single", lambda: X[np.int64(0)] if n else None, lambda: X[0] if n else None)
+        add("tuple_of_slice", lambda: X[(slice(0, 2),)], lambda: X[0:2])
+        add("ellipsis", lambda: X[...] if cls != "Ts" else None)
+        add("bool_list", lambda: X[[i % 2 == 0 for i in range(n)]], lambda: X[np.arange(n) % 2 == 0])
+        add("bool_tsd_other_dtype", lambda: data_of()[nap.Tsd(tx, np.arange(n) % 2 == 0, time_support=X.time_support)])
+        add("slice_negative_step_then_restrict", lambda: X[::-2].restrict(ep))
+        add("slice_np_ints", lambda: X[np.int64(1):np.int64(3)], lambda: X[1:3])
+        add("shuffled_then_count", lambda: X[idx].count(b))
+        add("shuffled_then_value_from", lambda: X[idx].value_from(data_of("Tsd"), ep))
+        add("repeated_indices", lambda: X[[0, 0, 1]] if n >= 2 else None)
+        if cls == "TsdFrame":
+            add("column_bool", lambda: X[:, [True, False, True]])
+            add("column_label_list", lambda: X.loc[list(X.columns[::-1])])
+            add("column_single_label", lambda: X.loc[X.columns[1]])
+            add("rows_shuffled_columns_reversed", lambda: X[idx[:3], ::-1])
+        if cls == "TsdTensor":
+            add("rows_shuffled_first_plane", lambda: X[idx[:3], 0])
+            add("newaxis", lambda: X[:, np.newaxis])
+        return out
+    if name == "f_count":
+        dts = [None, np.int64, np.float64, "int16", np.uint8, np.float32, "uint64"]
+        for j in range(4):
+            u, f = u_of([b])
+            dt = frng.choice(dts)
+            e2 = ep_form(nap, ep, frng, stats) if frng.random() < 0.7 else None
+            pos = [("bin_size", scalar_form(b * f, frng, stats, "bin_scalar", npint=False)), ("ep", e2), ("time_units", u), ("dtype", dt)]
+            _note(stats, "unit:" + u, "count_dtype:" + str(dt if not isinstance(dt, type) else dt.__name__))
+            add("binned_%d" % j, lambda pos=pos: _call(X.count, pos, {}, frng, stats, "count"), lambda e2=e2: X.count(b, e2))
+        add("no_bin_ep_positional_none", lambda: X.count(None, ep), lambda: X.count(ep=ep))
+        add("no_arguments", lambda: X.count(), lambda: X.count(ep=X.time_support))
+        add("unit_without_bin", lambda: X.count(ep=ep, time_units="ms"), lambda: X.count(ep=ep))
+        add("int_bin", lambda: X.count(1), lambda: X.count(1.0))
+        add("np_float32_bin", lambda: X.count(np.float32(b)))                 # not a float: TypeError, or a well-formed result
+        add("bin_wider_than_support", lambda: X.count(1000.0, ep))
+        add("count_of_count", lambda: X.count(b, ep).count(2 * b))
+        th = 2 * U2 / 1e9
+        u, f = u_of([th])
+        add("find_support_forms", lambda: _call(X.find_support, [("min_gap", scalar_form(th * f, frng, stats, "dur_scalar")), ("time_units", u)], {}, frng, stats, "find_support"), lambda: X.find_support(th))
+        add("find_support_int_gap", lambda: X.find_support(1), lambda: X.find_support(1.0))
+        add("find_support_float32_gap", lambda: X.find_support(np.float32(th)))
+        return out
+    if name == "f_bin_average":
+        D = data_of()
+        for j in range(3):
+            u, f = u_of([b])
+            e2 = ep_form(nap, ep, frng, stats) if frng.random() < 0.7 else None
+            pos = [("bin_size", scalar_form(b * f, frng, stats, "bin_scalar")), ("ep", e2), ("time_units", u)]
+            _note(stats, "unit:" + u)
+            add("forms_%d" % j, lambda pos=pos: _call(D.bin_average, pos, {}, frng, stats, "bin_average"), lambda e2=e2: D.bin_average(b, e2))
+        add("int_bin", lambda: D.bin_average(1, ep), lambda: D.bin_average(1.0, ep))
+        add("float32_bin", lambda: D.bin_average(np.float32(b), ep))
+        add("np_int_bin_ms", lambda: D.bin_average(np.int64(1000), ep, "ms"), lambda: D.bin_average(1.0, ep))
+        add("bin_wider_than_support", lambda: D.bin_average(1000.0))
+        add("then_dropna", lambda: D.bin_average(b, ep).dropna())
+        add("then_restrict_own", lambda: D.bin_average(b).restrict(D.time_support))
+        return out
+    if name == "f_value_from":
+        for j in range(4):
+            D = recast(nap, y, frng, stats, frng.choice(CLASSES[1:]))
+            mode = frng.choice(["closest", "before", "after"])
+            e2 = ep_form(nap, ep, frng, stats) if frng.random() < 0.7 else None
+            pos = [("data", D), ("ep", e2)] + ([("mode", mode)] if mode != "closest" or frng.random() < 0.5 else [])
+            _note(stats, "value_from_mode:" + mode)
+            add("forms_%d" % j, lambda pos=pos: _call(X.value_from, pos, {}, frng, stats, "value_from"))
+        add("self_as_data", lambda: data_of().value_from(data_of(), ep))
+        D1 = data_of()
+        add("same_live_object_twice", lambda: D1.value_from(D1))
+        add("mode_wrong_case", lambda: X.value_from(D1, ep, "Closest"))         # ValueError, or a well-formed result
+        return out
+    if name == "f_interpolate":
+        D = data_of()
+        for j in range(3):
+            T = recast(nap, y, frng, stats)
+            e2 = ep_form(nap, ep, frng, stats) if frng.random() < 0.7 else None
+            l_, r_ = frng.choice([None, 0, -1.5, np.float32(2)]), frng.choice([None, 0, 7.5, np.int64(3)])
+            pos = [("ts", T), ("ep", e2), ("left", l_), ("right", r_)]
+            add("forms_%d" % j, lambda pos=pos: _call(D.interpolate, pos, {}, frng, stats, "interpolate"), lambda T=T, e2=e2: D.interpolate(T, e2))
+        add("onto_itself", lambda: D.interpolate(D))
+        add("then_threshold", lambda: data_of("Tsd").interpolate(y, ep).threshold(2))
+        return out
+    if name == "f_threshold":
+        for j in range(5):
+            D = data_of("Tsd", content=frng.choice(["plain", "plain", "nan", "inf", "-inf", "all_equal", "zeros"]))
+            m = frng.choice(["above", "below", "aboveequal", "belowequal"])
+            thr = frng.choice([3, 3.0, 2.5, np.float32(2.5), np.int64(4), np.uint8(3), True, 0, -1, np.inf])
+            pos = [("thr", thr)] + ([("method", m)] if m != "above" or frng.random() < 0.5 else [])
+            _note(stats, "threshold_method:" + m, "thr_scalar:" + type(thr).__name__)
+            add("forms_%d" % j, lambda D=D, pos=pos: _call(D.threshold, pos, {}, frng, stats, "threshold"))
+        D = data_of("Tsd")
+        for m in ("Above", "BELOW", "aboveEqual", " above", None, 1):
+            add("method_not_accepted_%r" % (m,), lambda m=m: D.threshold(3, m))    # must raise, or give a well-formed result
+        add("threshold_of_threshold", lambda: D.threshold(2).threshold(5, "below"))
+        add("threshold_then_count", lambda: D.threshold(3, method="belowequal").count(b))
+        return out
+    if name == "f_dropna":
+        for j in range(5):
+            D = data_of(content=frng.choice(["nan", "nan", "inf", "-inf", "inf_and_-inf", "plain"]), dtypes=("float64", "float64", "float32"))
+            flag = frng.choice([True, False])
+            pos = [("update_time_support", flag)] if (not flag or frng.random() < 0.5) else []
+            _note(stats, "dropna_update_time_support:" + str(flag))
+            add("forms_%d" % j, lambda D=D, pos=pos: _call(D.dropna, pos, {}, frng, stats, "dropna"))
+        Di = data_of(dtypes=("int64", "uint8", "bool", "int16"))
+        add("integer_data", lambda: Di.dropna(), lambda: Di)
+        add("integer_data_keep_support", lambda: Di.dropna(False), lambda: Di)
+        add("flag_not_bool", lambda: Di.dropna(1))                              # TypeError, or a well-formed result
+        D2 = data_of(content="nan", dtypes=("float64",))
+        add("dropna_twice", lambda: D2.dropna().dropna(), lambda: D2.dropna())
+        add("dropna_then_restrict", lambda: D2.dropna(update_time_support=False).restrict(ep))
+        add("all_nan", lambda: (D2 * np.nan).dropna())
+        add("all_nan_keep_support", lambda: (D2 * np.nan).dropna(update_time_support=False))
+        return out
+    if name == "f_convolve":
+        kernels = [np.array([0.5, 0.5]), np.array([1, 2, 1]), np.array([0.25, 0.5, 0.25], dtype=np.float32), np.array([[1.0, 0.5], [0.5, 1.0]]), np.array([1.5]), np.array([True, True]),
+                   np.ones(9) / 9, np.array([1, -1], dtype=np.int8)]
+        for j in range(5):
+            D = data_of()
+            kr = frng.choice(kernels)
+            tr = frng.choice(["both", "left", "right"])
+            e2 = ep_form(nap, ep, frng, stats) if frng.random() < 0.5 else None
+            pos = [("array", kr), ("ep", e2)] + ([("trim", tr)] if tr != "both" or frng.random() < 0.5 else [])
+            _note(stats, "convolve_trim:" + tr, "kernel:%s%s" % (kr.dtype, "_2d" if kr.ndim == 2 else ""))
+            add("forms_%d" % j, lambda D=D, pos=pos: _call(D.convolve, pos, {}, frng, stats, "convolve"), lambda D=D, e2=e2: D if e2 is None else D.restrict(e2))
+        D = data_of()
+        add("kernel_list", lambda: D.convolve([0.5, 0.5]))                       # not array-like: IOError, or a well-formed result
+        add("trim_wrong_case", lambda: D.convolve(np.ones(2), trim="Left"))
+        add("convolve_twice", lambda: D.convolve(np.array([0.5, 0.5])).convolve(np.array([1.0, 1.0]), trim="right"), lambda: D)
+        return out
+    if name == "f_smooth":
+        D = data_of()
+        sd = 3 * U2 / 1e9
+        rate = float(D.rate) if len(D) and np.isfinite(D.rate) else 0.0
+
+        def cheap(std_, ws_, sf_):
+            """the gaussian kernel has rate * windowsize (or rate * std * size_factor) points: calls whose kernel would exceed 50000 points are not made (cost only)"""
+            return rate * (ws_ if ws_ is not None else std_ * sf_) <= 50000
+        for j in range(4):
+            u, f = frng.choice(UNITS)
+            ws = frng.choice([None, None, 9 * U2 / 1e9, 20 * U2 / 1e9])
+            sf = frng.choice([100, 4, 2])
+            nm = frng.choice([True, False])
+            if not cheap(sd, ws, sf):
+                _note(stats, "smooth_skipped_kernel_too_long")
+                continue
+            pos = [("std", sd * f), ("windowsize", None if ws is None else ws * f), ("time_units", u), ("size_factor", sf), ("norm", nm)]
+            _note(stats, "unit:" + u, "smooth_windowsize:" + ("default" if ws is None else "given"), "smooth_norm:" + str(nm))
+            add("forms_%d" % j, lambda pos=pos: _call(D.smooth, pos, {}, frng, stats, "smooth"), lambda: D)
+        if cheap(1.0, None, 100):
+            add("int_std", lambda: D.smooth(1), lambda: D)
+        if cheap(sd, None, 4):
+            add("std_ms_keyword_only", lambda: D.smooth(std=sd * 1e3, time_units="ms", size_factor=4), lambda: D)
+        return out
+    if name == "f_numpy":
+        D = data_of()
+        sc = frng.choice([2, 2.5, -1, 300, True, np.float32(0.5), np.int8(3), np.uint8(200)])
+        _note(stats, "scalar_operand:" + type(sc).__name__)
+        for nm_, f_ in (("add", lambda: D + sc), ("radd", lambda: sc + D), ("sub", lambda: D - sc), ("rsub", lambda: sc - D), ("mul", lambda: D * sc), ("truediv", lambda: D / 2),
+                        ("floordiv", lambda: D // 2), ("mod", lambda: D % 2), ("pow", lambda: D ** 2), ("neg", lambda: -D), ("lt", lambda: D < sc), ("eq", lambda: D == sc),
+                        ("np_add_kw", lambda: np.add(D, sc, dtype=np.float64)), ("np_multiply_array", lambda: np.multiply(D, np.asarray(D.values))),
+                        ("modf", lambda: list(np.modf(D))), ("divmod", lambda: list(np.divmod(D, 2))), ("square_then_sqrt", lambda: np.sqrt(np.square(D)))):
+            add("ufunc_" + nm_, f_, (lambda: [D, D]) if nm_ in ("modf", "divmod") else (lambda: D))
+        for nm_, fk, fp in (("cumsum", lambda: np.cumsum(D, axis=0), lambda: np.cumsum(D, 0)), ("flip", lambda: np.flip(D, axis=0), lambda: np.flip(D, 0)),
+                            ("roll", lambda: np.roll(D, shift=1, axis=0), lambda: np.roll(D, 1, 0)), ("diff", lambda: np.diff(D, n=1, axis=0), lambda: np.diff(D, 1, 0)),
+                            ("take", lambda: np.take(D, indices=[0], axis=0), lambda: np.take(D, [0], 0)), ("delete", lambda: np.delete(D, obj=0, axis=0), lambda: np.delete(D, 0, 0)),
+                            ("repeat", lambda: np.repeat(D, repeats=2, axis=0), lambda: np.repeat(D, 2, 0)), ("sum_last", lambda: np.sum(D, axis=-1), lambda: np.sum(D, -1)),
+                            ("mean_keepdims", lambda: np.mean(D, axis=0, keepdims=True), lambda: np.mean(D, 0, None, None, True)),
+                            ("sort_axis0", lambda: np.sort(D, axis=0), lambda: np.sort(D, 0)), ("moveaxis", lambda: np.moveaxis(D, 0, -1), lambda: np.moveaxis(D, source=0, destination=-1)),
+                            ("swapaxes", lambda: np.swapaxes(D, 0, -1), lambda: np.swapaxes(D, axis1=0, axis2=-1)), ("method_form", lambda: D.cumsum(axis=0), lambda: D.cumsum(0))):
+            add("axis_keyword_" + nm_, fk)
+            add("axis_positional_" + nm_, fp)
+        add("astype_like", lambda: np.asarray(D).sum() * 0 + D)
+        add("where_three_args", lambda: np.where(D > 2, D, -D))
+        add("clip_keywords", lambda: np.clip(D, a_min=1, a_max=3))
+        add("nan_to_num_kw", lambda: np.nan_to_num(D, nan=0.0, posinf=1.0, neginf=-1.0), lambda: D)
+        add("isfinite_then_index", lambda: D[np.isfinite(D)] if D.ndim == 1 else D[np.all(np.isfinite(D.values).reshape(len(D), -1), 1)])
+        return out
+    if name == "f_concat_split":
+        D = data_of()
+        m = len(D)
+        a_, b_, c_ = D[: m // 3], D[m // 3: 2 * m // 3], D[2 * m // 3:]
+        add("three_operands", lambda: np.concatenate((a_, b_, c_)))
+        add("three_operands_list", lambda: np.concatenate([a_, b_, c_], axis=0))
+        add("three_operands_axis_positional", lambda: np.concatenate((a_, b_, c_), 0))
+        add("three_operands_by_get", lambda: np.concatenate((D.get(t0 - 1, t0), D.get(t0 + U2 / 2e9, t1 - U2 / 2e9), D.get(t1, t1 + 1))) if m >= 3 and t0 < t1 else None)
+        add("vstack_three", lambda: np.vstack((a_, b_, c_)) if D.ndim > 1 else None)
+        add("vstack_kw_tup", lambda: np.vstack(tup=(a_, c_)) if D.ndim > 1 else None)
+        add("hstack_1d_three", lambda: np.hstack((a_, b_, c_)) if D.ndim == 1 else np.hstack((D, D, D)))
+        add("dstack", lambda: np.dstack((D, D)) if D.ndim == 3 else None)
+        add("concatenate_last_axis_kw", lambda: np.concatenate((D, D, D), axis=-1) if D.ndim > 1 else None, lambda: D if D.ndim > 1 else None)
+        add("concatenate_axis1_positional", lambda: np.concatenate((D, D), 1) if D.ndim > 1 else None, lambda: D if D.ndim > 1 else None)
+        add("same_object_twice_axis0", lambda: np.concatenate((D, D)))            # overlapping indexes: RuntimeError, or well formed
+        add("other_dtype_operands", lambda: np.concatenate((a_, (b_ * 1).astype(np.float32) if hasattr(b_, "astype") else b_, c_)))
+        add("split_indices_list", lambda: list(np.split(D, [1, 2])))
+        add("split_indices_array_kw", lambda: list(np.split(D, indices_or_sections=np.array([1]), axis=0)))
+        add("array_split_kw", lambda: list(np.array_split(D, indices_or_sections=3, axis=0)))
+        add("array_split_positional_axis", lambda: list(np.array_split(D, 2, 0)))
+        add("array_split_negative_axis", lambda: list(np.array_split(D, 2, axis=-D.ndim)))
+        add("vsplit", lambda: list(np.vsplit(D, [1])) if D.ndim > 1 else None)
+        add("hsplit_columns", lambda: list(np.hsplit(D, [1])) if D.ndim > 1 else None)
+        add("split_then_concatenate", lambda: np.concatenate(np.array_split(D, 3)), lambda: D if m >= 1 and not np.any(np.diff(np.asarray(D.t)) <= 0) else None)
+        add("more_sections_than_rows", lambda: list(np.array_split(D, m + 2)))
+        return out
+    return group_form_calls(R, name, rng, frng, X, x, y, ep, b, t0, t1, onl, cls, add, out, data_of, u_of, stats)
+
+
+def _seeded(np_seed, f):
+    """f run under a fixed numpy global seed (the randomisation functions draw from numpy's global generator); the caller's generator state is restored"""
+    def w():
+        st = np.random.get_state()
+        np.random.seed(np_seed)
+        try:
+            return f()
+        finally:
+            np.random.set_state(st)
+    return w
+
+
+def group_form_calls(R, name, rng, frng, X, x, y, ep, b, t0, t1, onl, cls, add, out, data_of, u_of, stats):
+    import pandas as pd
+    nap = R.nap
+    tx, ty = np.asarray(x.t), np.asarray(y.t)
+    n = len(X)
+    groups = [o for o in R.objs + R.extra if isinstance(o, nap.TsGroup)]
+    sup = x.time_support.union(y.time_support)
+    KEYSETS = ([0, 1, 2], [4, 1, 9], [10, 2, 33], ["10", "2", "33"], ["7", "0", "12"], [1.0, 3.0, 2.0], [np.int64(5), np.int32(2), np.uint8(8)], [0, "1", 2.0], [100, 20, 3])
+
+    def members(keys, kind):
+        """three members (x, y, every other sample of x) under the drawn keys, as objects or raw arrays"""
+        ts3 = [tx, ty, tx[::2]]
+        if kind == "objects":
+            return {k: recast(nap, nap.Ts(t, time_support=sup), frng, stats, frng.choice(("Ts", "Tsd"))) for k, t in zip(keys, ts3)}
+        if kind == "ts_default_support":
+            return {k: nap.Ts(t) for k, t in zip(keys, ts3)}
+        if kind == "arrays":
+            return {k: t.copy() for k, t in zip(keys, ts3)}
+        return {k: [float(v) for v in t] for k, t in zip(keys, ts3)}
+
+    def a_group():
+        if groups and frng.random() < 0.6:
+            return rng.choice(groups)
+        return nap.TsGroup({3: nap.Ts(tx), 8: nap.Ts(ty), 1: nap.Ts(tx[::2])}, time_support=sup, metadata={"lab": [1, 2, 3]})
+
+    if name == "f_group_ctor":
+        for j in range(4):
+            keys = frng.choice(KEYSETS)
+            kind = frng.choice(["objects", "objects", "ts_default_support", "arrays", "lists"])
+            tsup = frng.choice(["explicit", "explicit", "default", "other"])
+            S = {"explicit": sup, "default": None, "other": ep}[tsup]
+            bypass = kind == "objects" and tsup == "explicit" and frng.random() < 0.4     # members already carry the support: the documented use of bypass_check
+            meta = frng.choice([None, {"lab": [5, 6, 7]}, pd.DataFrame({"lab": [5, 6, 7], "name": ["a", "b", "c"]}, index=sorted(int(float(k)) for k in keys))])
+            as_list = frng.random() < 0.15
+            _note(stats, "group_keys:" + "/".join(sorted(set(type(k).__name__ for k in keys))) + ("_unsorted" if [int(float(k)) for k in keys] != sorted(int(float(k)) for k in keys) else ""),
+                  "group_members:" + kind, "group_support:" + tsup, "group_bypass_check:" + str(bypass), "group_metadata:" + ("none" if meta is None else type(meta).__name__),
+                  "group_data:" + ("list" if as_list else "dict"))
+
+            def build(keys=keys, kind=kind, S=S, bypass=bypass, meta=meta, as_list=as_list, unit=("s", 1.0)):
+                mem = members(keys, kind)
+                if unit[0] != "s":
+                    mem = {k: (np.asarray(v) * unit[1] if kind == "arrays" else [q * unit[1] for q in v]) for k, v in mem.items()}
+                data = list(mem.values()) if as_list else mem
+                if as_list and isinstance(meta, pd.DataFrame):
+                    meta = {"lab": [5, 6, 7]}
+                pos = [("data", data), ("time_support", S), ("time_units", unit[0]), ("bypass_check", bypass), ("metadata", meta)]
+                return _call(nap.TsGroup, pos, {}, frng, stats, "TsGroup")
+            add("forms_%d" % j, build, (lambda keys=keys, S=S: nap.TsGroup({int(float(k)): nap.Ts(t) for k, t in zip(keys, [tx, ty, tx[::2]])}, time_support=S)) if not as_list and (S is not None or kind != "objects") else None)
+            if kind in ("arrays", "lists") and onl and on_lattice(ty) and S is not None and not as_list:
+                u = frng.choice(UNITS[1:])
+                _note(stats, "group_raw_members_unit:" + u[0])
+                add("raw_members_%s_%d" % (u[0], j), lambda build=build, u=u: build(unit=u), lambda keys=keys, S=S: nap.TsGroup({int(float(k)): nap.Ts(t) for k, t in zip(keys, [tx, ty, tx[::2]])}, time_support=S))
+        add("one_member", lambda: nap.TsGroup({7: nap.Ts(tx)}, time_support=sup))
+        add("with_empty_member", lambda: nap.TsGroup({0: nap.Ts(tx), 1: nap.Ts(np.array([])), 2: nap.Ts(ty)}, time_support=sup))
+        add("with_empty_member_default_support", lambda: nap.TsGroup({2: nap.Ts(tx), 5: nap.Ts(np.array([]))}))
+        add("same_live_member_twice", lambda: nap.TsGroup({0: X, 1: X}, time_support=X.time_support) if len(X.time_support) else None)
+        add("group_of_group_members", lambda: nap.TsGroup(dict(a_group().items()), time_support=ep))
+        add("float_key_not_integer", lambda: nap.TsGroup({0.5: nap.Ts(tx)}, time_support=sup))               # ValueError, or well formed
+        add("time_support_not_intervalset", lambda: nap.TsGroup({0: nap.Ts(tx)}, time_support=sup.values))   # TypeError, or well formed
+        return out
+    if name == "f_group_empty":
+        # the EMPTY group (no member) with every unit, and every operation on it
+        for u in ("s", "ms", "us"):
+            add("ctor_%s" % u, lambda u=u: nap.TsGroup({}, time_support=ep, time_units=u), lambda: nap.TsGroup({}, time_support=ep))
+            add("ctor_list_%s" % u, lambda u=u: nap.TsGroup([], ep, u), lambda: nap.TsGroup({}, time_support=ep))
+        add("ctor_bypass_metadata", lambda: nap.TsGroup({}, time_support=ep, bypass_check=True, metadata=None))
+        add("ctor_no_support", lambda: nap.TsGroup({}))                                                      # RuntimeError (empty union), or well formed
+        g0 = nap.TsGroup({}, time_support=ep)
+        for u, f in UNITS:
+            if u != "s" and not onl:
+                continue
+            add("count_%s" % u, lambda u=u, f=f: g0.count(b * f, time_units=u), lambda: g0.count(b))
+            add("count_ep_%s" % u, lambda u=u, f=f: g0.count(b * f, X.time_support, u, np.int16), lambda: g0.count(b, X.time_support))
+            add("get_%s" % u, lambda u=u, f=f: g0.get(t0 * f, t1 * f, u), lambda: g0.get(t0, t1))
+        add("count_no_bin", lambda: g0.count())
+        add("restrict", lambda: g0.restrict(X.time_support))
+        add("to_tsd", lambda: g0.to_tsd())
+        add("value_from", lambda: g0.value_from(data_of("Tsd")))
+        add("merge_with_itself", lambda: nap.TsGroup.merge_group(g0, g0, reset_index=True))
+        add("merge_with_nonempty", lambda: g0.merge(nap.TsGroup({4: nap.Ts(tx)}, time_support=ep)))
+        add("merge_reset_time_support", lambda: nap.TsGroup.merge_group(g0, nap.TsGroup({4: nap.Ts(tx)}, time_support=sup), reset_time_support=True))
+        add("index_empty_list", lambda: g0[[]])
+        add("getby_threshold", lambda: g0.getby_threshold("rate", 0.0))
+        for fn in ("shift_timestamps", "resample_timestamps", "shuffle_ts_intervals"):
+            add(fn, _seeded(1, lambda fn=fn: getattr(nap, fn)(g0)))
+        add("jitter_timestamps_keep", _seeded(1, lambda: nap.jitter_timestamps(g0, 0.01, True)))
+        add("perievent", lambda: nap.compute_perievent(g0, nap.Ts(tx), 0.1))
+        # series without samples, every unit, through the same calls
+        for c in CLASSES:
+            u = frng.choice(("s", "ms", "us"))
+            K = getattr(nap, c)
+            dd = {"Ts": None, "Tsd": np.array([]), "TsdFrame": np.zeros((0, 2)), "TsdTensor": np.zeros((0, 2, 2))}[c]
+            add("empty_%s_%s" % (c, u), (lambda K=K, u=u, dd=dd: K(np.array([]), time_units=u, time_support=ep) if dd is None else K(np.array([]), dd, time_units=u, time_support=ep)))
+            add("empty_%s_list_%s" % (c, u), (lambda K=K, u=u, dd=dd: K([], u) if dd is None else K([], dd, u)))
+            add("empty_%s_ops" % c, (lambda K=K, u=u, dd=dd: [z for e in [(K(np.array([]), time_units=u) if dd is None else K(np.array([]), dd, time_units=u))]
+                                                             for z in each(lambda: e.restrict(ep), lambda: e.count(b, ep), lambda: e.count(ep=ep), lambda: e.get(t0, t1), lambda: e[0:0], lambda: e.copy(),
+                                                                           lambda: e.value_from(data_of("Tsd"), ep), lambda: e.count(b * 1e3, ep, "ms"))]))
+        return out
+    if name == "f_group_ops":
+        g = a_group()
+        ks = list(g.keys())
+        u, f = u_of([b])
+        dt = frng.choice([None, np.int64, np.float64, "int16", np.uint8])
+        e2 = ep_form(nap, ep, frng, stats) if frng.random() < 0.7 else None
+        pos = [("bin_size", scalar_form(b * f, frng, stats, "bin_scalar", npint=False)), ("ep", e2), ("time_units", u), ("dtype", dt)]
+        _note(stats, "unit:" + u)
+        add("count_forms", lambda: _call(g.count, pos, {}, frng, stats, "group_count"), lambda: g.count(b, e2))
+        add("count_no_bin_positional_none", lambda: g.count(None, ep), lambda: g.count(ep=ep))
+        u2, f2 = u_of([t0, t1])
+        add("get_forms", lambda: _call(g.get, [("start", scalar_form(t0 * f2, frng, stats, "get_scalar")), ("end", scalar_form(t1 * f2, frng, stats, "get_scalar")), ("time_units", u2)], {}, frng, stats, "group_get"),
+            lambda: g.get(t0, t1))
+        add("get_nearest", lambda: g.get(t0))
+        add("restrict_forms", lambda: _call(g.restrict, [("ep", ep_form(nap, ep, frng, stats))], {}, frng, stats, "group_restrict"), lambda: g.restrict(ep))
+        add("restrict_twice", lambda: g.restrict(ep).restrict(ep), lambda: g.restrict(ep))
+        mode = frng.choice(["closest", "before", "after"])
+        add("value_from_forms", lambda: _call(g.value_from, [("tsd", data_of(frng.choice(["Tsd", "TsdFrame"]))), ("ep", e2), ("mode", mode)], {}, frng, stats, "group_value_from"))
+        add("index_key_list_unsorted", lambda: g[ks[::-1]], lambda: g[ks])
+        add("index_np_array_keys", lambda: g[np.array(ks[:2])], lambda: g[ks[:2]])
+        add("index_bool_list", lambda: g[[i % 2 == 0 for i in range(len(ks))]], lambda: g[np.arange(len(ks)) % 2 == 0])
+        add("index_np_int_key", lambda: g[np.int64(ks[0])] if ks else None, lambda: g[ks[0]] if ks else None)
+        add("index_one_key_list", lambda: g[[ks[-1]]] if ks else None)
+        add("getby_threshold_ops", lambda: [g.getby_threshold("rate", float(np.nanmedian(g.rate)), op) for op in (">", "<", ">=", "<=")] if ks else None)
+        add("getby_intervals", lambda: list(g.getby_intervals("rate", np.array([0.0, float(np.nanmedian(g.rate)) + 1, 1e9]))) if ks else None)
+        add("getby_category", lambda: list(g.getby_category("lab").values()) if "lab" in g.metadata_columns else None)
+        add("trial_count_unit", lambda: g.count(b, ep).get(t0, t1))
+        add("members_then_group", lambda: nap.TsGroup({k: g[k] for k in ks}, time_support=g.time_support, bypass_check=True), lambda: g[ks] if ks else None)
+        return out
+    if name == "f_merge":
+        g = a_group()
+        h = nap.TsGroup({21: nap.Ts(ty), 20: nap.Ts(tx[1:])}, time_support=g.time_support, metadata={c: [0] * 2 for c in g.metadata_columns if c != "rate"})
+        k3 = nap.TsGroup({"40": nap.Ts(tx[::3])}, time_support=g.time_support, metadata={c: [0] for c in g.metadata_columns if c != "rate"})
+        hd = nap.TsGroup({21: nap.Ts(ty), 20: nap.Ts(tx[1:])}, time_support=ep)
+        dis = not (set(g.keys()) & {20, 21, 40})
+        if dis:
+            add("three_operands", lambda: nap.TsGroup.merge_group(g, h, k3))
+            add("three_operands_method", lambda: g.merge(h, k3), lambda: nap.TsGroup.merge_group(g, h, k3))
+            add("three_operands_order", lambda: nap.TsGroup.merge_group(k3, g, h))
+        for ri in (False, True):
+            for rt in (False, True):
+                for im in (False, True):
+                    if not ri and not dis:
+                        continue
+                    add("three_flags_ri%d_rt%d_im%d" % (ri, rt, im), lambda ri=ri, rt=rt, im=im: nap.TsGroup.merge_group(g, h, k3, reset_index=ri, reset_time_support=rt, ignore_metadata=im))
+                    add("other_support_ri%d_rt%d_im%d" % (ri, rt, im), lambda ri=ri, rt=rt, im=im: g.merge(hd, k3, reset_index=ri, reset_time_support=rt, ignore_metadata=im))
+        add("itself_three_times", lambda: nap.TsGroup.merge_group(g, g, g, reset_index=True, ignore_metadata=True))
+        def single():
+            import contextlib
+            import io
+            with contextlib.redirect_stdout(io.StringIO()):          # (merge_group prints a notice when given one operand)
+                return nap.TsGroup.merge_group(g)
+        add("single_operand", single, lambda: g)
+        add("merge_then_restrict", lambda: g.merge(h, reset_index=True, ignore_metadata=True).restrict(ep))
+        return out
+    if name == "f_to_tsd_tsgroup":
+        g = a_group()
+        m = len(g)
+        add("to_tsd_list", lambda: g.to_tsd(list(range(m))), lambda: g.to_tsd())
+        add("to_tsd_array_int", lambda: g.to_tsd(np.arange(m, dtype=np.uint8)), lambda: g.to_tsd())
+        add("to_tsd_series", lambda: g.to_tsd(pd.Series(index=g.index, data=np.arange(m) * 0.5)), lambda: g.to_tsd())
+        add("to_tsd_metadata_rate", lambda: g.to_tsd("rate"), lambda: g.to_tsd())
+        add("to_tsd_then_to_tsgroup", lambda: g.to_tsd().to_tsgroup())
+        for dt in ("float64", "float32", "int64", "int8", "uint8", "bool"):
+            lab = nap.Tsd(tx, (np.arange(len(tx)) % 3).astype(dt), time_support=X.time_support)
+            add("to_tsgroup_labels_" + dt, lambda lab=lab: lab.to_tsgroup())
+        add("to_tsgroup_negative_labels", lambda: nap.Tsd(tx, (np.arange(len(tx)) % 3) - 1.0, time_support=X.time_support).to_tsgroup())
+        add("to_tsgroup_large_labels", lambda: nap.Tsd(tx, (np.arange(len(tx)) % 2) * 1000 + 7, time_support=X.time_support).to_tsgroup())
+        add("to_tsgroup_restricted", lambda: nap.Tsd(tx, np.arange(len(tx)) % 2, time_support=X.time_support).restrict(ep).to_tsgroup())
+        add("fillna_int", lambda: recast(nap, X, frng, stats, "Ts").fillna(1))
+        return out
+    if name == "f_random":
+        T = recast(nap, x, frng, stats, "Ts")
+        g = a_group()
+        sd = rng.randrange(2 ** 31)
+        L = float(T.time_support.tot_length()) if len(T.time_support) else 1.0
+        j1 = U2 / 1e9
+        for tag, o in (("ts", T), ("group", g)):
+            add("shift_positional@" + tag, _seeded(sd, lambda o=o: nap.shift_timestamps(o, 0.0, L / 2)), _seeded(sd, lambda o=o: nap.shift_timestamps(o, min_shift=0.0, max_shift=L / 2)))
+            add("shift_defaults@" + tag, _seeded(sd, lambda o=o: nap.shift_timestamps(o)), _seeded(sd, lambda o=o: nap.shift_timestamps(ts=o, min_shift=0.0, max_shift=None)))
+            add("shift_int_bounds@" + tag, _seeded(sd, lambda o=o: nap.shift_timestamps(o, 0, 1)), _seeded(sd, lambda o=o: nap.shift_timestamps(o, 0.0, 1.0)))
+            add("jitter_positional_keep@" + tag, _seeded(sd, lambda o=o: nap.jitter_timestamps(o, j1, True)), _seeded(sd, lambda o=o: nap.jitter_timestamps(o, max_jitter=j1, keep_tsupport=True)))
+            add("jitter_np_scalar@" + tag, _seeded(sd, lambda o=o: nap.jitter_timestamps(o, np.float32(j1), keep_tsupport=True)), _seeded(sd, lambda o=o: nap.jitter_timestamps(o, j1, keep_tsupport=True)))
+            add("resample_keyword@" + tag, _seeded(sd, lambda o=o: nap.resample_timestamps(ts=o)), _seeded(sd, lambda o=o: nap.resample_timestamps(o)))
+            if not (tag == "ts" and len(T) and float(T.t[0]) == float(T.t[-1])):    # (a Ts of one instant: the zero-span quirk recorded under the families shuffle / jitter)
+                add("shuffle_keyword@" + tag, _seeded(sd, lambda o=o: nap.shuffle_ts_intervals(ts=o)), _seeded(sd, lambda o=o: nap.shuffle_ts_intervals(o)))
+            add("shift_then_restrict@" + tag, _seeded(sd, lambda o=o: nap.shift_timestamps(o).restrict(ep)))
+            add("resample_then_count@" + tag, _seeded(sd, lambda o=o: nap.resample_timestamps(o).count(b)))
+        add("shift_data_carrying_class", _seeded(sd, lambda: nap.shift_timestamps(data_of("Tsd"))))              # not a Ts: TypeError, or well formed
+        return out
+    if name == "f_perievent":
+        ref = recast(nap, nap.Ts(tx[::2], time_support=x.time_support), frng, stats)
+        XF, X = X, (X if cls in ("Ts", "Tsd") else recast(nap, X, frng, stats, frng.choice(("Ts", "Tsd"))))
+        w = 2 * U2 / 1e9
+        D = data_of()
+        g = a_group()
+        for j in range(3):
+            u, f = frng.choice(UNITS)
+            mm = frng.choice([(-w * f, w * f), (w * f, 2 * w * f), w * f, (0, w * f), (np.float64(w * f), w * f), 1])
+            _note(stats, "unit:" + u, "minmax:" + ("scalar" if not isinstance(mm, tuple) else "tuple"))
+            add("events_forms_%d" % j, lambda mm=mm, u=u: _call(nap.compute_perievent, [("timestamps", X), ("tref", ref), ("minmax", mm), ("time_unit", u)], {}, frng, stats, "perievent"))
+            add("continuous_forms_%d" % j, lambda mm=mm, u=u: _call(nap.compute_perievent_continuous, [("timeseries", D), ("tref", ref), ("minmax", mm), ("ep", frng.choice([None, ep])), ("time_unit", u)],
+                                                                    {}, frng, stats, "perievent_continuous"))
+        add("events_class_" + cls, lambda: nap.compute_perievent(XF, ref, w))
+        add("events_group_input", lambda: nap.compute_perievent(g, ref, (w, w)))
+        add("events_group_input_ms", lambda: nap.compute_perievent(timestamps=g, tref=ref, minmax=w * 1e3, time_unit="ms"), lambda: nap.compute_perievent(g, ref, w))
+        add("events_then_count", lambda: nap.compute_perievent(X, ref, w).count(w / 2))
+        add("events_then_to_tsd", lambda: nap.compute_perievent(X, ref, w).to_tsd())
+        add("continuous_then_restrict", lambda: nap.compute_perievent_continuous(D, ref, w).restrict(nap.IntervalSet(0, w)))
+        add("time_unit_not_accepted", lambda: nap.compute_perievent(X, ref, w, "MS"))                            # RuntimeError, or well formed
+        return out
+    if name == "f_setops":
+        eps = [o for o in R.objs + R.extra if isinstance(o, nap.IntervalSet)] or [ep]
+        e1, e2 = rng.choice(eps), rng.choice(eps)
+        for opn in ("union", "intersect", "set_diff"):
+            add(opn + "_forms", lambda opn=opn: _call(getattr(ep_form(nap, e1, frng, stats), opn), [("a", ep_form(nap, e2, frng, stats))], {}, frng, stats, "setop"), lambda opn=opn: getattr(e1, opn)(e2))
+            add(opn + "_with_itself", lambda opn=opn: getattr(e1, opn)(e1))
+            add(opn + "_with_empty", lambda opn=opn: [getattr(e1, opn)(nap.IntervalSet([], [])), getattr(nap.IntervalSet(start=[], end=[]), opn)(e1)])
+            add(opn + "_three_way", lambda opn=opn: getattr(getattr(e1, opn)(e2), opn)(ep))
+        th = 2 * U2 / 1e9
+        for opn in ("drop_short_intervals", "drop_long_intervals", "merge_close_intervals"):
+            u, f = u_of([th]) if on_lattice(e1.values) else UNITS[0]
+            add(opn + "_forms", lambda opn=opn, u=u, f=f: _call(getattr(e1, opn), [("threshold", scalar_form(th * f, frng, stats, "dur_scalar")), ("time_units", u)], {}, frng, stats, "dur_op"),
+                lambda opn=opn: getattr(e1, opn)(th))
+        add("split_forms", lambda: e1.split(4 * U2 / 1e6, "ms") if on_lattice(e1.values) else None, lambda: e1.split(4 * U2 / 1e9) if on_lattice(e1.values) else None)
+        add("split_keyword", lambda: e1.split(interval_size=4 * U2 / 1e9, time_units="s"), lambda: e1.split(4 * U2 / 1e9))
+        add("index_int", lambda: e1[0])
+        add("index_negative", lambda: e1[-1])
+        add("index_slice", lambda: e1[::2])
+        add("index_list_unsorted", lambda: e1[[len(e1) - 1, 0]])
+        add("index_bool", lambda: e1[np.arange(len(e1)) % 2 == 0])
+        add("index_tuple", lambda: e1[0:1, :] if len(e1) else None)
+        add("time_span", lambda: e1.time_span() if len(e1) else None)
+        add("as_support_of_series", lambda: each(lambda: recast(nap, X, frng, stats, sup=e1.union(e2)), lambda: X.restrict(e1.intersect(e2)), lambda: X.restrict(e1.set_diff(e2))))
+        add("ctor_malformed_forms", lambda: each(lambda: nap.IntervalSet([3.0, 1.0], [4.0, 2.0]), lambda: nap.IntervalSet(start=(1, 2), end=(3, 4)), lambda: nap.IntervalSet(np.array([[1, 2], [2, 3]])),
+                                                 lambda: nap.IntervalSet(pd.DataFrame({"start": [2.0, 0.0], "end": [3.0, 1.0], "lab": [1, 2]})), lambda: nap.IntervalSet(5, 5),
+                                                 lambda: nap.IntervalSet(1e3, 2e3, "ms", {"a": [1]}), lambda: nap.IntervalSet(np.array([2, 1], dtype=np.uint8), np.array([4, 3], dtype=np.uint8))))
+        return out
+    if name == "f_saveload":
+        import os
+        import tempfile
+        objs = [X, ep, a_group()]
+        def roundtrip(o):
+            d = tempfile.mkdtemp(prefix="wd_C04_")
+            try:
+                p = os.path.join(d, "obj.npz")
+                o.save(p)
+                return nap.load_file(p)
+            finally:
+                for fn in os.listdir(d):
+                    os.remove(os.path.join(d, fn))
+                os.rmdir(d)
+        zs = bool(n >= 1 and float(tx[0]) == float(tx[-1]) and len(X.time_support) == 0)
+        add("series", lambda: roundtrip(X) if not zs else None, lambda: X if not zs else None)
+        add("intervalset", lambda: roundtrip(ep), lambda: ep)
+        add("group", lambda: roundtrip(objs[2]), lambda: objs[2])
+        add("series_then_restrict_count", lambda: [z for l in [roundtrip(X)] for z in (l.restrict(ep), l.count(b, ep), l.get(t0, t1))] if not zs else None,
+            lambda: [X.restrict(ep), X.count(b, ep), X.get(t0, t1)] if not zs else None)
+        add("group_then_restrict", lambda: roundtrip(objs[2]).restrict(ep), lambda: objs[2].restrict(ep))
+        return out
+    if name == "f_placement":
+        # the same series translated (negative times, across 0, 1e5 s) and mirrored, through the core operations
+        if not (on_lattice(tx) and on_lattice(X.time_support.values) and on_lattice(ep.values)):
+            return out
+        for tag, sh in (("negative", -(np.ceil(abs(t1)) + 2.0)), ("across_zero", -(t0 + t1) / 2 if on_lattice([(t0 + t1) / 2]) else -t0 - U2 / 1e9), ("plus_1e5", 1e5)):
+            S = nap.IntervalSet(X.time_support.start + sh, X.time_support.end + sh)
+            E = nap.IntervalSet(ep.start + sh, ep.end + sh)
+            Z = make_series(nap, cls, tx + sh, frng, S, stats)
+            _note(stats, "placement:" + tag)
+
+            def back(o, sh=sh):
+                """the result translated back"""
+                if isinstance(o, nap.IntervalSet):
+                    return nap.IntervalSet(o.start - sh, o.end - sh)
+                return nap.Ts(np.asarray(o.t) - sh, time_support=nap.IntervalSet(o.time_support.start - sh, o.time_support.end - sh))
+            add("ctor@" + tag, lambda Z=Z: Z)
+            add("restrict@" + tag, lambda Z=Z, E=E: Z.restrict(E))
+            add("restrict_translated_back@" + tag, lambda Z=Z, E=E, back=back: back(Z.restrict(E)), lambda: X.restrict(ep))
+            add("count@" + tag, lambda Z=Z, E=E: Z.count(b, E))
+            add("count_translated_back@" + tag, lambda Z=Z, E=E, back=back: back(Z.count(b, E)), lambda: X.count(b, ep))
+            add("get@" + tag, lambda Z=Z, sh=sh: Z.get(t0 + sh, t1 + sh))
+            add("get_translated_back@" + tag, lambda Z=Z, sh=sh, back=back: back(Z.get(t0 + sh, (t0 + t1) / 2 + sh)), lambda: X.get(t0, (t0 + t1) / 2))
+            add("default_support@" + tag, lambda sh=sh: make_series(nap, cls, tx + sh, frng, None, stats) if n >= 2 and tx[0] != tx[-1] else None)
+            add("units@" + tag, lambda sh=sh, S=S: nap.Ts((tx + sh) * 1e3, "ms", S), lambda Z=Z: Z)
+            add("find_support@" + tag, lambda Z=Z: Z.find_support(2 * U2 / 1e9))
+            if cls != "Ts":
+                add("bin_average@" + tag, lambda Z=Z, E=E: Z.bin_average(b, E))
+                add("dropna@" + tag, lambda Z=Z: Z.dropna())
+                add("convolve@" + tag, lambda Z=Z, E=E: Z.convolve(np.array([0.5, 0.5]), E))
+                add("interpolate@" + tag, lambda Z=Z, E=E: Z.interpolate(nap.Ts(ty + sh), E))
+            if cls == "Tsd":
+                add("threshold@" + tag, lambda Z=Z: Z.threshold(2.5))
+                add("to_tsgroup@" + tag, lambda Z=Z: Z.to_tsgroup())
+            add("group@" + tag, lambda Z=Z, sh=sh, S=S: nap.TsGroup({0: nap.Ts(tx + sh), 1: nap.Ts(ty + sh)}, time_support=S).restrict(E))
+        return out
+    if name == "f_chain":
+        # multi-step histories: a result fed to the next operation, every step's object checked
+        D = data_of()
+
+        def chain(*fs):
+            def w():
+                objs, o = [], D
+                for f in fs:
+                    try:
+                        o = f(o)
+                    except Exception:
+                        break
+                    objs.append(o)
+                return objs
+            return w
+        steps = {
+            "restrict": lambda o: o.restrict(ep), "slice": lambda o: o[1:], "step2": lambda o: o[::2], "get": lambda o: o.get(t0, (t0 + t1) / 2), "times2": lambda o: o * 2,
+            "abs": lambda o: np.abs(o), "cumsum": lambda o: np.cumsum(o, axis=0), "count": lambda o: o.count(b), "bin_average": lambda o: o.bin_average(b),
+            "dropna": lambda o: o.dropna(), "dropna_keep": lambda o: o.dropna(update_time_support=False), "convolve": lambda o: o.convolve(np.array([0.5, 0.5])),
+            "interpolate": lambda o: o.interpolate(y), "value_from": lambda o: y.value_from(o), "copy": lambda o: o.copy(), "own_support": lambda o: o.restrict(o.time_support),
+            "first_column": lambda o: o[:, 0] if o.ndim > 1 else o, "find_support_restrict": lambda o: o.restrict(o.find_support(2 * U2 / 1e9)),
+            "concat_halves": lambda o: np.concatenate((o[: len(o) // 2], o[len(o) // 2:])), "astype_f32": lambda o: o.__class__(o.t, np.asarray(o.values, dtype=np.float32), time_support=o.time_support),
+        }
+        names = sorted(steps)
+        for j in range(6):
+            seq = [frng.choice(names) for _ in range(frng.randint(2, 4))]
+            _note(stats, "chain_length:%d" % len(seq))
+            add("chain_%d:%s" % (j, ">".join(seq)), chain(*[steps[s] for s in seq]))
+        add("same_live_object_twice", lambda: each(lambda: D.restrict(ep), lambda: D.restrict(ep), lambda: np.concatenate((D.get(t0, t0), D.get(t1, t1))) if t0 < t1 else None, lambda: D.value_from(D),
+                                                   lambda: D.interpolate(D), lambda: np.hstack((D, D)) if D.ndim > 1 else None))
+        shared = np.arange(2 * len(D), dtype=np.float64)
+        add("operands_sharing_memory", lambda: each(lambda: nap.Tsd(np.asarray(D.t), shared[: len(D)], time_support=D.time_support), lambda: nap.Tsd(np.asarray(D.t), shared[::2], time_support=D.time_support),
+                                                    lambda: nap.Tsd(D.index, shared[len(D):], time_support=D.time_support).restrict(ep),
+                                                    lambda: np.concatenate((nap.Tsd(np.asarray(D.t), shared[: len(D)])[: len(D) // 2], nap.Tsd(np.asarray(D.t), shared[: len(D)])[len(D) // 2:]))))
+        return out
+    return out
+
+
+FORM_FAMILY_SET = frozenset(FORM_FAMILIES)
